@@ -1,5 +1,6 @@
 (* C10 part 2 proofs: with the repaired restart logic every event cascade of a program accepted by
-   cascade_cert_ok ends within phi(state) steps; with the unchanged logic it does not. *)
+   cascade_cert_ok ends within phi(state) steps - instances with several heads (fork / merge /
+   wait-for-heads), actionable heads that win or lose; with the unchanged logic it does not. *)
 From Coq Require Import List Arith Bool Lia.
 From NG Require Import V2.Term V2.Term_proofs V2.Cascade.
 Import ListNotations.
@@ -41,7 +42,8 @@ Lemma exec_stop_kinds : forall es o pos cs e s,
   exec_elem es o pos cs e = Stop s ->
   match s with
   | Blocked p => p = pos /\ is_stop e = true
-  | Forked _ _ => exists ls, e = EFork ls
+  | Forked p ts => p = pos /\ exists ls, e = EFork ls /\ all_some (map (label_pos es) ls) = Some ts
+  | Ended => e = EReturn
   | OutOfFuel => False
   | _ => True
   end.
@@ -51,12 +53,6 @@ Proof.
     repeat match type of H with
            | context [match ?x with _ => _ end] => destruct x eqn:?; try discriminate
            end; inversion H; subst; simpl; auto; eauto.
-Qed.
-
-Lemma no_fork_nth : forall es p ls, no_fork es = true -> nth_error es p = Some (EFork ls) -> False.
-Proof.
-  intros es p ls H Hn. unfold no_fork in H. rewrite forallb_forall in H.
-  apply nth_error_In in Hn. specialize (H _ Hn). discriminate.
 Qed.
 
 Lemma wat_lt : forall w len p, p < len -> wat w len p = nth p w 0.
@@ -74,32 +70,76 @@ Proof.
   assert (Hlt : p < length es) by (apply nth_error_Some; congruence).
   unfold check_w in Hc. rewrite forallb_forall in Hc.
   assert (Hi : In p (seq 0 (length es))) by (apply in_seq; lia).
-  specialize (Hc p Hi). rewrite Hn in Hc. rewrite forallb_forall in Hc.
+  specialize (Hc p Hi). rewrite Hn in Hc. apply andb_true_iff in Hc. destruct Hc as [Hc _].
+  rewrite forallb_forall in Hc.
   specialize (Hc _ Hin). apply Nat.leb_le in Hc. simpl in Hc. simpl. lia.
 Qed.
 
-Lemma check_clean_step : forall es stk cl p q s,
-  check_clean es stk cl = true -> p < length es -> nth p cl false = true ->
-  In (q, s) (succ_cfg true es stk p) -> q < length es -> nth q cl false = true.
+
+(* what check_clean says *)
+Lemma check_clean_at : forall es ct p, check_clean es ct = true -> p < length es ->
+  (nth p (f_clean ct) false = true ->
+     (match nth_error es p with
+      | Some (EWaitInt true) => Nat.eqb p 0
+      | Some (EBlock BAction) => false
+      | Some (EFork _) => forallb (fun qs => Nat.ltb (fst qs) (length es) && nth (fst qs) (f_noend ct) false)
+                                  (succ_cfg true es (f_stk ct) p)
+      | _ => true
+      end = true) /\
+     forallb (fun qs => Nat.leb (length es) (fst qs) || nth (fst qs) (f_clean ct) false)
+             (succ_cfg true es (f_stk ct) p) = true) /\
+  (nth p (f_noend ct) false = true ->
+     (match nth_error es p with Some EReturn => false | _ => true end = true) /\
+     forallb (fun qs => Nat.ltb (fst qs) (length es) && nth (fst qs) (f_noend ct) false)
+             (succ_cfg true es (f_stk ct) p) = true).
 Proof.
-  intros es stk cl p q s Hc Hp Hcl Hin Hq.
-  unfold check_clean in Hc. rewrite forallb_forall in Hc.
+  intros es ct p Hc Hp. unfold check_clean in Hc. rewrite forallb_forall in Hc.
   assert (Hi : In p (seq 0 (length es))) by (apply in_seq; lia).
-  specialize (Hc p Hi). rewrite Hcl in Hc. simpl in Hc.
-  apply andb_true_iff in Hc. destruct Hc as [_ Hc]. rewrite forallb_forall in Hc.
-  specialize (Hc _ Hin). simpl in Hc. apply orb_true_iff in Hc. destruct Hc as [Hc|Hc]; [|assumption].
-  apply Nat.leb_le in Hc. lia.
+  specialize (Hc p Hi). apply andb_true_iff in Hc. destruct Hc as [HA HB]. split.
+  - intros Hcl. rewrite Hcl in HA. simpl in HA. apply andb_true_iff in HA. assumption.
+  - intros Hne. rewrite Hne in HB. simpl in HB. apply andb_true_iff in HB. assumption.
 Qed.
 
-Lemma check_clean_not_waitint : forall es stk cl p,
-  check_clean es stk cl = true -> nth p cl false = true -> nth_error es p = Some (EWaitInt true) -> p = 0.
+Lemma clean_step : forall es ct p q s, check_clean es ct = true -> p < length es ->
+  nth p (f_clean ct) false = true -> In (q, s) (succ_cfg true es (f_stk ct) p) -> q < length es ->
+  nth q (f_clean ct) false = true.
 Proof.
-  intros es stk cl p Hc Hcl Hn.
-  assert (Hp : p < length es) by (apply nth_error_Some; congruence).
-  unfold check_clean in Hc. rewrite forallb_forall in Hc.
-  assert (Hi : In p (seq 0 (length es))) by (apply in_seq; lia).
-  specialize (Hc p Hi). rewrite Hcl, Hn in Hc. simpl in Hc.
-  apply andb_true_iff in Hc. destruct Hc as [Hc _]. apply Nat.eqb_eq in Hc. assumption.
+  intros es ct p q s Hc Hp Hcl Hin Hq.
+  destruct (check_clean_at es ct p Hc Hp) as [HA _]. destruct (HA Hcl) as [_ H2].
+  rewrite forallb_forall in H2. specialize (H2 _ Hin). simpl in H2.
+  apply orb_true_iff in H2. destruct H2 as [H2|H2]; [apply Nat.leb_le in H2; lia|assumption].
+Qed.
+
+Lemma noend_step : forall es ct p q s, check_clean es ct = true -> p < length es ->
+  nth p (f_noend ct) false = true -> In (q, s) (succ_cfg true es (f_stk ct) p) ->
+  q < length es /\ nth q (f_noend ct) false = true.
+Proof.
+  intros es ct p q s Hc Hp Hne Hin.
+  destruct (check_clean_at es ct p Hc Hp) as [_ HB]. destruct (HB Hne) as [_ H2].
+  rewrite forallb_forall in H2. specialize (H2 _ Hin). simpl in H2.
+  apply andb_true_iff in H2. destruct H2 as [H2 H3]. apply Nat.ltb_lt in H2. auto.
+Qed.
+
+Lemma noend_not_return : forall es ct p, check_clean es ct = true ->
+  nth p (f_noend ct) false = true -> nth_error es p = Some EReturn -> False.
+Proof.
+  intros es ct p Hc Hne Hn. assert (Hp : p < length es) by (apply nth_error_Some; congruence).
+  destruct (check_clean_at es ct p Hc Hp) as [_ HB]. destruct (HB Hne) as [H1 _]. rewrite Hn in H1. discriminate.
+Qed.
+
+Lemma clean_elem : forall es ct p e, check_clean es ct = true ->
+  nth p (f_clean ct) false = true -> nth_error es p = Some e ->
+  (e = EWaitInt true -> p = 0) /\ e <> EBlock BAction /\
+  (forall ls q s, e = EFork ls -> In (q, s) (succ_cfg true es (f_stk ct) p) ->
+                  q < length es /\ nth q (f_noend ct) false = true).
+Proof.
+  intros es ct p e Hc Hcl Hn. assert (Hp : p < length es) by (apply nth_error_Some; congruence).
+  destruct (check_clean_at es ct p Hc Hp) as [HA _]. destruct (HA Hcl) as [H1 _]. rewrite Hn in H1.
+  split; [|split].
+  - intros ->. apply Nat.eqb_eq in H1. assumption.
+  - intros ->. discriminate.
+  - intros ls q s -> Hin. rewrite forallb_forall in H1. specialize (H1 _ Hin). simpl in H1.
+    apply andb_true_iff in H1. destruct H1 as [H1 H2]. apply Nat.ltb_lt in H1. auto.
 Qed.
 
 Lemma conts_in_succ : forall ti es stk p e s q s',
@@ -107,50 +147,127 @@ Lemma conts_in_succ : forall ti es stk p e s q s',
   In (q, s') (succ_cfg ti es stk p).
 Proof. intros. unfold succ_cfg. rewrite H, H0. apply in_or_app. left. assumption. Qed.
 
-Lemma resume_in_succ : forall es stk p e s,
-  nth_error es p = Some e -> stk_at stk p = Some s -> is_stop e = true -> wakes e = true ->
-  In (S p, s) (succ_cfg true es stk p).
+Lemma resumes_in_succ : forall es stk p e s qs,
+  nth_error es p = Some e -> stk_at stk p = Some s -> wakes e = true -> In qs (resumes es s p e) ->
+  In qs (succ_cfg true es stk p).
 Proof.
-  intros es stk p e s Hn Hs Hst Hw. unfold succ_cfg. rewrite Hn, Hs. apply in_or_app. right.
-  simpl. rewrite Hw. destruct e; simpl in *; try discriminate.
-  - destruct k; simpl; auto.
-  - left; reflexivity.
-  - left; reflexivity.
+  intros es stk p e s qs Hn Hs Hw Hin. unfold succ_cfg. rewrite Hn, Hs. apply in_or_app. right.
+  simpl. rewrite Hw. assumption.
+Qed.
+
+(* stack consistency of the resume points *)
+Lemma resumes_stk : forall ti es r stk p e s q s',
+  check_cert ti es r stk = true -> nth_error es p = Some e -> stk_at stk p = Some s ->
+  In (q, s') (resumes es s p e) -> q < length es -> stk_at stk q = Some s'.
+Proof.
+  intros ti es r stk p e s q s' Hc Hn Hs Hin Hq.
+  assert (Hp : p < length es) by (apply nth_error_Some; congruence).
+  pose proof (check_cert_pos ti es r stk p Hc Hp) as Hcp. unfold check_pos in Hcp. rewrite Hn, Hs in Hcp.
+  apply andb_true_iff in Hcp. destruct Hcp as [_ Hok]. rewrite forallb_forall in Hok.
+  assert (Hin2 : In (q, s') (conts es s p e ++ resumes es s p e)) by (apply in_or_app; right; assumption).
+  specialize (Hok _ Hin2). simpl in Hok. unfold stk_ok in Hok.
+  apply orb_true_iff in Hok. destruct Hok as [Hok|Hok]; [apply Nat.leb_le in Hok; lia|].
+  destruct (stk_at stk q) as [s2|]; [|discriminate]. apply eqb_labels_eq in Hok. congruence.
+Qed.
+
+Lemma resumes_same_stack : forall es s p e q s', In (q, s') (resumes es s p e) -> s' = s /\ 1 <= q.
+Proof.
+  intros es s p e q s' H. destruct e; simpl in H; try contradiction.
+  - destruct k; simpl in H;
+      repeat match goal with
+             | H : _ \/ _ |- _ => destruct H as [H|H]
+             | H : (_, _) = (_, _) |- _ => inversion H; subst; clear H
+             | H : False |- _ => contradiction
+             end; try (split; [reflexivity|lia]);
+      unfold catch_resume in H; destruct s as [|l s0]; try contradiction;
+      destruct (label_pos es l); simpl in H; try contradiction; destruct H as [H|[]]; inversion H; subst; split; auto; lia.
+  - destruct H as [H|H]; [inversion H; subst; split; [reflexivity|lia]|].
+    unfold catch_resume in H; destruct s as [|l s0]; try contradiction;
+      destruct (label_pos es l); simpl in H; try contradiction; destruct H as [H|[]]; inversion H; subst; split; auto; lia.
+  - destruct H as [H|[]]. inversion H; subst. split; [reflexivity|lia].
+  - apply in_flat_map in H. destruct H as [l [_ H]]. destruct (label_pos es l); simpl in H; try contradiction.
+    destruct H as [H|[]]. inversion H; subst. split; [reflexivity|lia].
+Qed.
+
+Lemma fork_resumes : forall es s p ls ts i,
+  all_some (map (label_pos es) ls) = Some ts -> In i ts -> In (S i, s) (resumes es s p (EFork ls)).
+Proof.
+  intros es s p ls. simpl. induction ls as [|l ls IH]; intros ts i Ha Hin; simpl in Ha.
+  - inversion Ha; subst. destruct Hin.
+  - destruct (label_pos es l) as [i0|] eqn:Hl; [|discriminate].
+    destruct (all_some (map (label_pos es) ls)) as [ts0|] eqn:Hr; [|discriminate].
+    inversion Ha; subst. simpl. rewrite Hl. simpl. destruct Hin as [->|Hin]; [left; reflexivity|].
+    right. eapply IH; eauto.
+Qed.
+
+Lemma fork_cost_ts : forall es w ls ts,
+  all_some (map (label_pos es) ls) = Some ts ->
+  list_sum (map (fun i => 1 + wat w (length es) (S i)) ts) = fork_cost es w ls.
+Proof.
+  intros es w. unfold fork_cost. induction ls as [|l ls IH]; intros ts Ha; simpl in Ha.
+  - inversion Ha; reflexivity.
+  - destruct (label_pos es l) as [i0|] eqn:Hl; [|discriminate].
+    destruct (all_some (map (label_pos es) ls)) as [ts0|] eqn:Hr; [|discriminate].
+    inversion Ha; subst. specialize (IH ts0 eq_refl). cbn [map list_sum fold_right] in *.
+    unfold list_sum in *. rewrite Hl. lia.
+Qed.
+
+Lemma check_w_fork : forall prog certs f es ct p ls,
+  check_w prog certs f es ct = true -> nth_error es p = Some (EFork ls) ->
+  1 + fork_cost es (f_w ct) ls <= wat (f_w ct) (length es) p.
+Proof.
+  intros prog certs f es ct p ls Hc Hn.
+  assert (Hlt : p < length es) by (apply nth_error_Some; congruence).
+  unfold check_w in Hc. rewrite forallb_forall in Hc.
+  assert (Hi : In p (seq 0 (length es))) by (apply in_seq; lia).
+  specialize (Hc p Hi). rewrite Hn in Hc. apply andb_true_iff in Hc. destruct Hc as [_ Hc].
+  apply Nat.leb_le in Hc. assumption.
 Qed.
 
 Section SlidePot.
-  Variables (prog : program) (certs : list fcert) (f : flowid) (es : list elem) (ct : fcert) (cl : list bool).
+  Variables (prog : program) (certs : list fcert) (f : flowid) (es : list elem) (ct : fcert).
   Hypothesis Hprog : nth_error prog f = Some es.
   Hypothesis Hcert : check_cert true es (f_rank ct) (f_stk ct) = true.
   Hypothesis Hw : check_w prog certs f es ct = true.
-  Hypothesis Hclean : check_clean es (f_stk ct) cl = true.
-  Hypothesis Hnf : no_fork es = true.
+  Hypothesis Hclean : check_clean es ct = true.
 
   Local Notation len := (length es).
   Local Notation w := (f_w ct).
+  Local Notation cl := (f_clean ct).
+  Local Notation ne := (f_noend ct).
+
+  Definition endpot (s : stop) : nat :=
+    match s with Blocked p | Forked p _ => wat w len p | _ => 0 end.
 
   Lemma slide_pot : forall fuel orc k pos cs starts ni,
     (pos < len -> stk_at (f_stk ct) pos = Some cs) ->
     (pos < len -> rank_at (f_rank ct) pos < fuel) -> 0 < fuel ->
     let res := slide_fuel fuel es orc k pos cs starts ni in
     s_stop res <> OutOfFuel /\
-    (forall p ts, s_stop res <> Forked p ts) /\
     (exists new, s_starts res = starts ++ new /\
        (forall g, In (g, true) new -> activatable prog g = true) /\
        starts_cost prog certs new + (if s_newinst res && negb ni then 1 + newpot prog certs f else 0)
-       + (match s_stop res with Blocked p => wat w len p | _ => 0 end) <= wat w len pos) /\
-    (forall p, s_stop res = Blocked p ->
+       + endpot (s_stop res) <= wat w len pos) /\
+    (forall p, s_stop res = Blocked p \/ (exists ts, s_stop res = Forked p ts) ->
        p < len /\ stk_at (f_stk ct) p = Some (s_catch res) /\
-       (exists e, nth_error es p = Some e /\ is_stop e = true) /\
        ((pos < len -> nth pos cl false = true) -> nth p cl false = true) /\
-       (1 <= pos -> 1 <= p)).
+       (pos < len /\ nth pos ne false = true -> nth p ne false = true) /\
+       (1 <= pos -> 1 <= p)) /\
+    (forall p, s_stop res = Blocked p -> exists e, nth_error es p = Some e /\ is_stop e = true) /\
+    (forall p ts, s_stop res = Forked p ts ->
+       exists ls, nth_error es p = Some (EFork ls) /\ all_some (map (label_pos es) ls) = Some ts) /\
+    (pos < len /\ nth pos ne false = true -> s_stop res <> Ended).
   Proof.
     induction fuel as [|fuel IH]; intros orc k pos cs starts ni Hcs Hrk Hpos; [lia|].
     simpl. destruct (nth_error es pos) as [e|] eqn:Hnth.
-    2:{ simpl. split; [discriminate|]. split; [discriminate|]. split.
-        - exists []. rewrite app_nil_r. split; [reflexivity|]. split; [intros g []|].
-          rewrite andb_negb_r. unfold starts_cost. simpl. lia.
-        - intros p Hp. discriminate. }
+    2:{ simpl. assert (Hge : len <= pos) by (apply nth_error_None; assumption).
+        split; [discriminate|]. split.
+        { exists []. rewrite app_nil_r. split; [reflexivity|]. split; [intros g []|].
+          rewrite andb_negb_r. unfold starts_cost. simpl. lia. }
+        split; [intros p [Hp|[ts Hp]]; discriminate|].
+        split; [intros p Hp; discriminate|].
+        split; [intros p ts Hp; discriminate|].
+        intros [Hlt _]. lia. }
     assert (Hlt : pos < len) by (apply nth_error_Some; congruence).
     destruct (exec_elem es (orc k) pos cs e) as [pos' cs' st ni'|s] eqn:Hex.
     - (* continue *)
@@ -166,8 +283,8 @@ Section SlidePot.
       assert (Hfuel : 0 < fuel) by lia.
       specialize (IH orc (S k) pos' cs'
                      (match st with Some x => starts ++ [x] | None => starts end) (ni || ni') Hstk' Hrk' Hfuel).
-      cbv zeta in IH. destruct IH as [I1 [I2 [[new [Hs [Hact' Hc]]] I4]]].
-      split; [assumption|]. split; [assumption|]. split.
+      cbv zeta in IH. destruct IH as [I1 [[new [Hs [Hact' Hc]]] [I3 [I4 [I5 I6]]]]].
+      split; [assumption|]. split.
       + exists (match st with Some x => [x] | None => [] end ++ new). split; [|split].
         * rewrite Hs. destruct st; [rewrite <- app_assoc; reflexivity | reflexivity].
         * intros g Hg. apply in_app_or in Hg. destruct Hg as [Hg|Hg]; [|apply Hact'; assumption].
@@ -184,24 +301,30 @@ Section SlidePot.
           set (R := slide_fuel fuel es orc (S k) pos' cs'
                                (match st with Some x => starts ++ [x] | None => starts end) (ni || ni')) in *.
           destruct (s_newinst R), ni, ni'; simpl in *; lia.
-      + intros p Hp. destruct (I4 p Hp) as [J1 [J2 [J3 [J4 J5]]]].
-        split; [assumption|]. split; [assumption|]. split; [assumption|]. split.
-        * intros Hcl. apply J4. intros Hp'.
-          eapply (check_clean_step es (f_stk ct) cl pos pos' cs' Hclean Hlt (Hcl Hlt) Hins Hp').
-        * intros _. apply J5. eapply exec_cont_pos; eassumption.
+      + split; [|split; [assumption|split; [assumption|]]].
+        * intros p Hp. destruct (I3 p Hp) as [J1 [J2 [J3 [J4 J5]]]].
+          split; [assumption|]. split; [assumption|]. split; [|split].
+          -- intros Hcl. apply J3. intros Hp'.
+             exact (clean_step es ct pos pos' cs' Hclean Hlt (Hcl Hlt) Hins Hp').
+          -- intros [_ Hne]. apply J4. exact (noend_step es ct pos pos' cs' Hclean Hlt Hne Hins).
+          -- intros _. apply J5. eapply exec_cont_pos; eassumption.
+        * intros [_ Hne]. apply I6. exact (noend_step es ct pos pos' cs' Hclean Hlt Hne Hins).
     - (* stop *)
       simpl. pose proof (exec_stop_kinds _ _ _ _ _ _ Hex) as Hk.
       split; [destruct s; try discriminate; contradiction|].
       split.
-      { intros p ts Heq. subst s. destruct Hk as [ls Hk]. subst e. eapply no_fork_nth; eauto. }
-      split.
-      + exists []. rewrite app_nil_r. split; [reflexivity|]. split; [intros g []|].
+      { exists []. rewrite app_nil_r. split; [reflexivity|]. split; [intros g []|].
         rewrite andb_negb_r. unfold starts_cost. simpl.
-        destruct s; try lia. destruct Hk as [Hk _]. subst. lia.
-      + intros p Hp. subst s. destruct Hk as [Hk1 Hk2]. subst p.
-        split; [assumption|]. split; [apply Hcs; assumption|]. split; [exists e; auto|]. split.
-        * intros Hcl. apply Hcl. assumption.
-        * auto.
+        destruct s; simpl; try lia; destruct Hk as [Hk _]; subst; lia. }
+      split.
+      { intros p [Hp|[ts Hp]]; subst s; destruct Hk as [Hk1 Hk2]; subst p;
+          (split; [assumption|]; split; [apply Hcs; assumption|]; split; [intros Hcl; apply Hcl; assumption|];
+           split; [intros [_ Hne]; assumption|auto]). }
+      split.
+      { intros p Hp. subst s. destruct Hk as [Hk1 Hk2]. subst p. exists e. auto. }
+      split.
+      { intros p ts Hp. subst s. destruct Hk as [Hk1 [ls [Hk2 Hk3]]]. subst p e. exists ls. auto. }
+      intros [_ Hne] Hs. subst s. subst e. eapply noend_not_return; eauto.
   Qed.
 End SlidePot.
 
@@ -218,47 +341,62 @@ Proof.
   - replace (i + S k) with (S i + k) by lia. eapply IH; eauto.
 Qed.
 
-Record flow_ok (prog : program) (certs : list fcert) (f : flowid) (es : list elem) (ct : fcert) (cl : list bool) : Prop := {
+Record flow_ok (prog : program) (certs : list fcert) (f : flowid) (es : list elem) (ct : fcert) : Prop := {
   fo_cert : nth_error certs f = Some ct;
-  fo_nofork : no_fork es = true;
   fo_head : exists tl, es = EWaitInt true :: tl;
   fo_stk0 : stk_at (f_stk ct) 0 = Some [];
   fo_check : check_cert true es (f_rank ct) (f_stk ct) = true;
   fo_w : check_w prog certs f es ct = true;
-  fo_clean : check_clean es (f_stk ct) cl = true;
-  fo_act : activatable prog f = true -> nth 0 cl false = true
+  fo_clean : check_clean es ct = true;
+  fo_act : activatable prog f = true -> 1 < length es -> nth 1 (f_clean ct) false = true
 }.
 
-Lemma cert_ok_flow : forall prog certs cleans f es,
-  cascade_cert_ok prog certs cleans = true -> nth_error prog f = Some es ->
-  exists ct cl, flow_ok prog certs f es ct cl.
+Lemma cert_ok_flow : forall prog certs f es,
+  cascade_cert_ok prog certs = true -> nth_error prog f = Some es ->
+  exists ct, flow_ok prog certs f es ct.
 Proof.
-  intros prog certs cleans f es H Hn. unfold cascade_cert_ok in H.
+  intros prog certs f es H Hn. unfold cascade_cert_ok in H.
   apply andb_true_iff in H. destruct H as [_ H].
   pose proof (forallb_i_nth _ _ _ 0 f es H Hn) as Hf. simpl in Hf.
   destruct (nth_error certs f) as [ct|] eqn:Hc; [|discriminate].
-  destruct (nth_error cleans f) as [cl|] eqn:Hcl; [|discriminate].
   repeat (apply andb_true_iff in Hf; let H' := fresh "H" in destruct Hf as [Hf H']).
-  exists ct, cl. constructor; auto.
+  exists ct. constructor; auto.
   - destruct es as [|e tl]; [discriminate|]. destruct e; try discriminate. destruct started_making; try discriminate. eauto.
   - destruct (stk_at (f_stk ct) 0) as [[|]|]; try discriminate. reflexivity.
-  - intros Ha. rewrite Ha in H0. simpl in H0. assumption.
+  - intros Ha Hl. rewrite Ha in H0. simpl in H0. apply orb_true_iff in H0. destruct H0 as [H0|H0]; [assumption|].
+    apply Nat.leb_le in H0. lia.
 Qed.
 
 (* ------------------------------------------------------------------------------------------ *)
 (* well-formed states *)
 
+Definition quiet (es : list elem) (h : chead) : bool :=
+  match nth_error es (h_pos h) with
+  | Some (EWaitInt true) => Nat.eqb (h_pos h) 0
+  | Some (EBlock BAction) => false
+  | Some (EBlock BMatch) | Some EWaitHeads => h_inert h
+  | _ => true
+  end.
+
 Section Inv.
-  Variables (prog : program) (certs : list fcert) (cleans : list (list bool)).
-  Hypothesis Hok : cascade_cert_ok prog certs cleans = true.
+  Variables (prog : program) (certs : list fcert).
+
+  (* sa = the instance is activated and has not been STARTED yet *)
+  Definition hwf (es : list elem) (ct : fcert) (sa forked : bool) (h : chead) : Prop :=
+    (h_inert h = false -> forall q, In q (h_alts h) ->
+       1 <= q /\ (q < length es -> stk_at (f_stk ct) q = Some (h_catch h)) /\
+       (sa = true -> (q < length es -> nth q (f_clean ct) false = true) /\
+                     (forked = true -> q < length es /\ nth q (f_noend ct) false = true))) /\
+    (sa = true -> quiet es h = true).
+
+  Definition sa_of (c : cinst) : bool := negb (started c) && c_act c.
 
   Definition iwf (c : cinst) : Prop :=
     (c_act c = true -> activatable prog (c_flow c) = true) /\
-    (listening c = true -> c_inert c = false ->
-     exists es ct cl, nth_error prog (c_flow c) = Some es /\ flow_ok prog certs (c_flow c) es ct cl /\
-       c_pos c < length es /\ stk_at (f_stk ct) (c_pos c) = Some (c_catch c) /\
-       (exists e, nth_error es (c_pos c) = Some e /\ is_stop e = true /\
-          (started c = false -> c_act c = true -> nth (c_pos c) cl false = true /\ wakes e = true))).
+    (c_forked c = false -> length (c_heads c) <= 1) /\
+    (listening c = true ->
+     exists es ct, nth_error prog (c_flow c) = Some es /\ flow_ok prog certs (c_flow c) es ct /\
+                   Forall (hwf es ct (sa_of c) (c_forked c)) (c_heads c)).
 
   Definition ewf (e : cev) : Prop :=
     match e with CStart g true => activatable prog g = true | _ => True end.
@@ -284,50 +422,18 @@ Section Inv.
     subst e. simpl. destruct a; [apply H; assumption | exact I].
   Qed.
 
-  (* the resting potential dominates what a run from the position behind it can cause *)
-  Lemma rest_pot : forall f es ct cl p e s,
-    flow_ok prog certs f es ct cl -> nth_error es p = Some e -> is_stop e = true -> wakes e = true ->
-    stk_at (f_stk ct) p = Some s ->
-    1 + wat (f_w ct) (length es) (S p) <= wat (f_w ct) (length es) p.
+  Lemma hwf_weaken : forall es ct sa sa' fk h, (sa' = true -> sa = true) -> hwf es ct sa fk h -> hwf es ct sa' fk h.
   Proof.
-    intros f es ct cl p e s Hf Hn Hs Hw Hst.
-    pose proof (resume_in_succ es (f_stk ct) p e s Hn Hst Hs Hw) as Hin.
-    pose proof (check_w_step prog certs f es ct p e (S p) s (fo_w _ _ _ _ _ _ Hf) Hn Hin). lia.
-  Qed.
-
-  Lemma resume_stk : forall f es ct cl p e s,
-    flow_ok prog certs f es ct cl -> nth_error es p = Some e -> is_stop e = true ->
-    stk_at (f_stk ct) p = Some s -> S p < length es -> stk_at (f_stk ct) (S p) = Some s.
-  Proof.
-    intros f es ct cl p e s Hf Hn Hs Hst Hlt.
-    assert (Hp : p < length es) by lia.
-    pose proof (check_cert_pos true es _ _ p (fo_check _ _ _ _ _ _ Hf) Hp) as Hc.
-    unfold check_pos in Hc. rewrite Hn, Hst in Hc.
-    apply andb_true_iff in Hc. destruct Hc as [_ Hc]. rewrite forallb_forall in Hc.
-    assert (Hin : In (S p, s) (conts es s p e ++ resumes es s p e)).
-    { apply in_or_app. right. destruct e; simpl in Hs; try discriminate; simpl.
-      - destruct k; simpl; auto.
-      - left; reflexivity.
-      - left; reflexivity. }
-    specialize (Hc _ Hin). simpl in Hc. unfold stk_ok in Hc.
-    apply orb_true_iff in Hc. destruct Hc as [Hc|Hc]; [apply Nat.leb_le in Hc; lia|].
-    destruct (stk_at (f_stk ct) (S p)) as [s'|]; [|discriminate]. apply eqb_labels_eq in Hc. congruence.
-  Qed.
-
-  Lemma resume_clean : forall f es ct cl p e s,
-    flow_ok prog certs f es ct cl -> nth_error es p = Some e -> is_stop e = true -> wakes e = true ->
-    stk_at (f_stk ct) p = Some s -> nth p cl false = true -> S p < length es -> nth (S p) cl false = true.
-  Proof.
-    intros f es ct cl p e s Hf Hn Hs Hw Hst Hcl Hlt.
-    pose proof (resume_in_succ es (f_stk ct) p e s Hn Hst Hs Hw) as Hin.
-    assert (Hp : p < length es) by lia.
-    exact (check_clean_step es (f_stk ct) cl p (S p) s (fo_clean _ _ _ _ _ _ Hf) Hp Hcl Hin Hlt).
+    intros es ct sa sa' fk h Himp [H1 H2]. split.
+    - intros Hi q Hq. destruct (H1 Hi q Hq) as [A [B C]]. split; [assumption|]. split; [assumption|].
+      intros Hs. apply C. apply Himp. assumption.
+    - intros Hs. apply H2. apply Himp. assumption.
   Qed.
 End Inv.
 
 Section Steps.
-  Variables (prog : program) (certs : list fcert) (cleans : list (list bool)).
-  Hypothesis Hok : cascade_cert_ok prog certs cleans = true.
+  Variables (prog : program) (certs : list fcert).
+  Hypothesis Hok : cascade_cert_ok prog certs = true.
 
   Local Notation iwf := (iwf prog certs).
   Local Notation ewf := (ewf prog).
@@ -351,173 +457,254 @@ Section Steps.
 
   Lemma qcost_note : qcost [CNote] = 1. Proof. reflexivity. Qed.
 
-  Lemma wakes_not_bmatch : forall e, is_stop e = true -> e <> EBlock BMatch -> wakes e = true.
-  Proof. intros e H Hn. destruct e; simpl in *; try discriminate; auto. destruct k; auto; congruence. Qed.
+  Lemma wakes_movable_stop : forall e, is_stop e = true ->
+    match e with EBlock BMatch | EWaitHeads => true | _ => false end = false -> wakes e = true.
+  Proof. intros e H Hn. destruct e; simpl in *; try discriminate; auto. destruct k; auto; discriminate. Qed.
 
-  Lemma iwf_inert : forall c', (c_act c' = true -> activatable prog (c_flow c') = true) -> c_inert c' = true -> iwf c'.
-  Proof. intros c' H Hi. split; [assumption|]. intros _ Hn. congruence. Qed.
-
-  Lemma iwf_dead : forall c', (c_act c' = true -> activatable prog (c_flow c') = true) -> c_status c' = CDead -> iwf c'.
-  Proof. intros c' H Hd. split; [assumption|]. unfold listening. rewrite Hd. discriminate. Qed.
-
-  Definition good (c : cinst) (ro : rout) : Prop :=
-    iwf (r_inst ro) /\ Forall ewf (r_right ro) /\ Forall ewf (r_left ro) /\
-    ipot (r_inst ro) + qcost (r_right ro) + qcost (r_left ro) + 1 <= ipot c.
-
-  Ltac ewf_tac Hnew Hself :=
-    repeat (apply Forall_app; split); try exact Hnew; try apply Hself; try apply ewf_note_if;
-    try (repeat constructor).
-
-  (* advancing a movable instance: it stays well-formed, pays for everything it emits, and the
-     potential drops by at least one *)
-  Lemma run_inst_pot : forall c es o,
-    iwf c -> listening c = true -> c_inert c = false -> nth_error prog (c_flow c) = Some es ->
-    exists ro, run_inst true es o c = Some ro /\ good c ro.
+  Lemma waits_quiet_inert : forall es h, head_waits es h = true -> quiet es h = true -> h_inert h = true.
   Proof.
-    intros c es o [Hactv Hwf] Hl Hi Hprog.
-    destruct (Hwf Hl Hi) as [es' [ct [cl [Hp' [Hf [Hpos [Hstk [e [He [Hse Hcl]]]]]]]]]].
-    rewrite Hprog in Hp'. inversion Hp'; subst es'. clear Hp'.
-    pose proof (fo_cert _ _ _ _ _ _ Hf) as Hct.
-    assert (Hipot : ipot c = 2 + (if started c then 0 else 1) + 1 + wat (f_w ct) (length es) (S (c_pos c)) +
-                            (if c_act c && negb (c_restarted c) && started c then 1 + newpot prog certs (c_flow c) else 0)).
-    { unfold Cascade.ipot. rewrite Hl, Hi, Hprog, Hct. lia. }
-    assert (Hs1 : S (c_pos c) < length es -> stk_at (f_stk ct) (S (c_pos c)) = Some (c_catch c)).
-    { intros Hlt. eapply resume_stk; eauto. }
-    assert (Hs2 : S (c_pos c) < length es -> rank_at (f_rank ct) (S (c_pos c)) < length es + 1).
-    { intros Hlt. pose proof (cert_rank_le true es _ _ _ _ (fo_check _ _ _ _ _ _ Hf) Hlt (Hs1 Hlt)). lia. }
+    intros es h Hw Hq. unfold head_waits in Hw. unfold quiet in Hq.
+    apply andb_true_iff in Hw. destruct Hw as [Hp Hw]. apply negb_true_iff in Hp.
+    destruct (nth_error es (h_pos h)) as [e|]; [|discriminate].
+    destruct e; try discriminate.
+    - destruct k; try discriminate. assumption.
+    - destruct started_making; try discriminate. congruence.
+    - assumption.
+  Qed.
+
+  Lemma list_max_le_all : forall l n, (forall x, In x l -> x <= n) -> list_max l <= n.
+  Proof. intros l n H. apply list_max_le. apply Forall_forall. assumption. Qed.
+
+  (* the potential of a head that comes to rest on a wakeable stop element *)
+  Lemma alts_pot : forall f es ct p e s,
+    flow_ok prog certs f es ct -> nth_error es p = Some e -> is_stop e = true -> wakes e = true ->
+    stk_at (f_stk ct) p = Some s ->
+    1 + list_max (map (wat (f_w ct) (length es)) (map fst (resumes es s p e))) <= wat (f_w ct) (length es) p.
+  Proof.
+    intros f es ct p e s Hf Hn Hs Hw Hst.
+    assert (Hall : forall qs, In qs (resumes es s p e) ->
+                     1 + wat (f_w ct) (length es) (fst qs) <= wat (f_w ct) (length es) p).
+    { intros [q s'] Hin. pose proof (resumes_in_succ es (f_stk ct) p e s (q, s') Hn Hst Hw Hin) as Hin2.
+      pose proof (check_w_step prog certs f es ct p e q s' (fo_w _ _ _ _ _ Hf) Hn Hin2). simpl. lia. }
+    assert (Hne : In (S p, s) (resumes es s p e)).
+    { destruct e; simpl in Hs; try discriminate; simpl; [destruct k|..]; simpl; auto. }
+    pose proof (Hall _ Hne) as H1. simpl in H1.
+    assert (Hm : list_max (map (wat (f_w ct) (length es)) (map fst (resumes es s p e))) <= wat (f_w ct) (length es) p - 1).
+    { apply list_max_le_all. intros x Hx. apply in_map_iff in Hx. destruct Hx as [q [Hq Hin]].
+      apply in_map_iff in Hin. destruct Hin as [qs [Hqs Hin]]. subst. specialize (Hall _ Hin). lia. }
+    lia.
+  Qed.
+
+  Definition good_bound (c : cinst) (ct : fcert) (len q : nat) : nat :=
+    2 + (if started c then 0 else 1) + list_sum (map (hpot (f_w ct) len) (c_heads c)) + (1 + wat (f_w ct) len q) +
+    (if c_act c && negb (c_restarted c) && started c then 1 + newpot prog certs (c_flow c) else 0).
+
+  (* advancing a movable head (taken out of its instance c) from one of its resume points: the
+     instance stays well-formed, pays for everything it emits, and the potential drops by >= 1 *)
+  Lemma run_head_pot : forall c hd q es ct o,
+    nth_error prog (c_flow c) = Some es -> flow_ok prog certs (c_flow c) es ct ->
+    listening c = true ->
+    (c_act c = true -> activatable prog (c_flow c) = true) ->
+    (c_forked c = false -> c_heads c = []) ->
+    Forall (hwf es ct (sa_of c) (c_forked c)) (c_heads c) ->
+    hwf es ct (sa_of c) (c_forked c) hd -> h_inert hd = false -> In q (h_alts hd) ->
+    exists ro, run_head true es o c hd q = Some ro /\ iwf (r_inst ro) /\
+               Forall ewf (r_right ro) /\ Forall ewf (r_left ro) /\
+               ipot (r_inst ro) + qcost (r_right ro) + qcost (r_left ro) + 1 <= good_bound c ct (length es) q.
+  Proof.
+    intros c hd q es ct o Hprog Hf Hl Hactv Hnf Hothers [Hhd1 Hhd2] Hmov Hq.
+    destruct (Hhd1 Hmov q Hq) as [Hq1 [Hqstk Hqsa]].
+    pose proof (fo_cert _ _ _ _ _ Hf) as Hct.
+    assert (Hs2 : q < length es -> rank_at (f_rank ct) q < length es + 1).
+    { intros Hlt. pose proof (cert_rank_le true es _ _ _ _ (fo_check _ _ _ _ _ Hf) Hlt (Hqstk Hlt)). lia. }
     assert (Hs3 : 0 < length es + 1) by lia.
-    pose proof (slide_pot prog certs (c_flow c) es ct cl Hprog (fo_check _ _ _ _ _ _ Hf) (fo_w _ _ _ _ _ _ Hf)
-                          (fo_clean _ _ _ _ _ _ Hf) (fo_nofork _ _ _ _ _ _ Hf)
-                          (length es + 1) o 0 (S (c_pos c)) (c_catch c) [] false Hs1 Hs2 Hs3) as HS.
-    cbv zeta in HS. fold (slide (length es + 1) es o (S (c_pos c)) (c_catch c)) in HS.
-    destruct HS as [Hno [Hnf [[new [Hnew [Hnact Hcost]]] Hblk]]].
+    pose proof (slide_pot prog certs (c_flow c) es ct Hprog (fo_check _ _ _ _ _ Hf) (fo_w _ _ _ _ _ Hf)
+                          (fo_clean _ _ _ _ _ Hf) (length es + 1) o 0 q (h_catch hd) [] false Hqstk Hs2 Hs3) as HS.
+    cbv zeta in HS. fold (slide (length es + 1) es o q (h_catch hd)) in HS.
+    destruct HS as [Hno [[new [Hnew [Hnact Hcost]]] [Hstop [Hblk [Hfrk Hnoend]]]]].
     simpl in Hnew. rewrite andb_true_r in Hcost.
-    unfold run_inst.
-    set (r := slide (length es + 1) es o (S (c_pos c)) (c_catch c)) in *.
+    unfold run_head, good_bound.
+    set (r := slide (length es + 1) es o q (h_catch hd)) in *.
     rewrite Hnew.
-    assert (Hq : qcost (map (fun fa : flowid * bool => CStart (fst fa) (snd fa)) new) = starts_cost prog certs new)
+    assert (Hqc : qcost (map (fun fa : flowid * bool => CStart (fst fa) (snd fa)) new) = starts_cost prog certs new)
       by apply qcost_starts.
     assert (Hewf_new : Forall ewf (map (fun fa : flowid * bool => CStart (fst fa) (snd fa)) new))
       by (apply ewf_starts; assumption).
     assert (Hewf_self : forall b, Forall ewf (start_if b (c_flow c) (c_act c)))
       by (intros b; apply ewf_start_if; assumption).
-    assert (Hcl0 : started c = false -> c_act c = true -> S (c_pos c) < length es -> nth (S (c_pos c)) cl false = true).
-    { intros H1 H2 H3. destruct (Hcl H1 H2) as [Hc1 Hc2]. eapply resume_clean; eauto. }
-    unfold good.
-    destruct (s_stop r) as [p|p ts| | |p|] eqn:Hstop.
+    (* facts about the start of the slide for a not yet started activated instance *)
+    assert (Hsa_clean : sa_of c = true -> q < length es -> nth q (f_clean ct) false = true)
+      by (intros H1 H2; apply (proj1 (Hqsa H1)); assumption).
+    assert (Hsa_ne : sa_of c = true -> c_forked c = true -> q < length es /\ nth q (f_noend ct) false = true)
+      by (intros H1 H2; apply (proj2 (Hqsa H1)); assumption).
+    unfold listening in Hl.
+    destruct (s_stop r) as [p|p ts| | |p|] eqn:Hstop_r.
     - (* Blocked p *)
-      destruct (Hblk p eq_refl) as [Hp [Hstkp [[e' [He' Hse']] [Hclp Hp1]]]].
-      specialize (Hp1 ltac:(lia)).
-      rewrite He'.
-      assert (Hrestp : e' <> EBlock BMatch -> 1 + wat (f_w ct) (length es) (S p) <= wat (f_w ct) (length es) p).
-      { intros Hnb. eapply rest_pot; eauto. apply wakes_not_bmatch; assumption. }
-      assert (Hnowi : started c = false -> c_act c = true -> e' = EWaitInt true -> False).
-      { intros H1 H2 H3. subst e'.
-        assert (Hcp : nth p cl false = true) by (apply Hclp; intros; apply Hcl0; assumption).
-        pose proof (check_clean_not_waitint es (f_stk ct) cl p (fo_clean _ _ _ _ _ _ Hf) Hcp He'). lia. }
-      assert (Hiwf_rest : forall status rst,
-                 (status = CStarted \/ (status = c_status c /\ e' <> EBlock BMatch)) ->
-                 iwf {| c_flow := c_flow c; c_pos := p; c_catch := s_catch r; c_status := status;
-                        c_act := c_act c; c_restarted := rst; c_inert := false |}).
-      { intros status rst Hst. split; [simpl; assumption|]. intros _ _. cbn [c_flow c_pos c_catch c_act].
-        exists es, ct, cl. repeat (split; [assumption|]). exists e'. split; [assumption|]. split; [assumption|].
-        unfold started. cbn [c_status]. intros Hns Ha.
-        destruct Hst as [Hst|[Hst Hnb]]; subst status; [discriminate|].
-        assert (Hns' : started c = false) by (unfold started; assumption).
-        split.
-        - apply Hclp. intros Hlt. apply Hcl0; assumption.
-        - apply wakes_not_bmatch; assumption. }
-      idtac.
-      unfold listening in Hl.
-      destruct e' as [k|b| | | | | | | | | |]; simpl in Hse'; try discriminate.
-      + destruct k.
-        * (* BMatch *)
-          eexists; split; [reflexivity|]. cbn [r_inst r_right r_left].
-          split; [apply iwf_inert; [simpl; assumption|reflexivity]|].
-          split; [apply Forall_app; split; [assumption|apply ewf_note_if]|].
-          split; [apply Hewf_self|].
-          rewrite Hipot, qcost_app, Hq, qcost_note_if, qcost_start_if. unfold Cascade.ipot, listening, started in *.
-          cbn [c_status c_inert].
-          destruct (c_status c); try discriminate; destruct (c_act c), (c_restarted c), (s_newinst r); simpl in *; lia.
-        * eexists; split; [reflexivity|]. cbn [r_inst r_right r_left].
-          split; [apply Hiwf_rest; right; split; [reflexivity|discriminate]|].
-          split; [assumption|]. split; [apply Hewf_self|].
-          specialize (Hrestp ltac:(discriminate)).
-          rewrite Hipot, Hq, qcost_start_if. unfold Cascade.ipot, listening, started in *.
-          cbn [c_status c_inert c_flow c_pos c_act c_restarted]. rewrite Hprog, Hct.
-          destruct (c_status c); try discriminate; destruct (c_act c), (c_restarted c), (s_newinst r); simpl in *; lia.
-        * eexists; split; [reflexivity|]. cbn [r_inst r_right r_left].
-          split; [apply Hiwf_rest; right; split; [reflexivity|discriminate]|].
-          split; [assumption|]. split; [apply Hewf_self|].
-          specialize (Hrestp ltac:(discriminate)).
-          rewrite Hipot, Hq, qcost_start_if. unfold Cascade.ipot, listening, started in *.
-          cbn [c_status c_inert c_flow c_pos c_act c_restarted]. rewrite Hprog, Hct.
-          destruct (c_status c); try discriminate; destruct (c_act c), (c_restarted c), (s_newinst r); simpl in *; lia.
-      + destruct b.
-        * (* EWaitInt true: becomes STARTED, stays movable *)
-          eexists; split; [reflexivity|]. cbn [r_inst r_right r_left].
-          split; [apply Hiwf_rest; left; reflexivity|].
-          split; [apply Forall_app; split; [assumption|apply ewf_note_if]|].
-          split; [apply Hewf_self|].
-          specialize (Hrestp ltac:(discriminate)).
-          rewrite Hipot, qcost_app, Hq, qcost_note_if, qcost_start_if. unfold Cascade.ipot, listening, started in *.
-          cbn [c_status c_inert c_flow c_pos c_act c_restarted]. rewrite Hprog, Hct.
-          destruct (c_status c) eqn:Hcs; try discriminate.
-          -- destruct (c_act c) eqn:Ha; [exfalso; apply Hnowi; auto|].
+      destruct (Hstop p (or_introl eq_refl)) as [Hp [Hstkp [Hclp [Hnep Hp1]]]].
+      specialize (Hp1 Hq1).
+      destruct (Hblk p eq_refl) as [e [He Hse]].
+      rewrite He.
+      set (inert := match e with EBlock BMatch | EWaitHeads => true | _ => false end) in *.
+      set (hd' := {| h_pos := p; h_catch := s_catch r; h_inert := inert;
+                     h_alts := map fst (resumes es (s_catch r) p e) |}) in *.
+      set (becomes := negb (started c) && forallb (head_waits es) (hd' :: c_heads c)) in *.
+      eexists; split; [reflexivity|]. cbn [r_inst r_right r_left].
+      (* the new head *)
+      assert (Hhpot : hpot (f_w ct) (length es) hd' <= wat (f_w ct) (length es) p).
+      { unfold hpot. cbn [hd' h_inert h_alts]. destruct inert eqn:Hin; [lia|].
+        eapply alts_pot; eauto. apply wakes_movable_stop; assumption. }
+      assert (Hquiet : sa_of c = true -> quiet es hd' = true).
+      { intros Hsa. unfold quiet. cbn [hd' h_pos h_inert]. rewrite He.
+        assert (Hcp : nth p (f_clean ct) false = true) by (apply Hclp; intros Hl0; apply Hsa_clean; assumption).
+        destruct (clean_elem es ct p e (fo_clean _ _ _ _ _ Hf) Hcp He) as [C1 [C2 _]].
+        destruct e as [k|b| | | | | | | | | |]; simpl in Hse; try discriminate.
+        - destruct k; unfold inert; simpl; try reflexivity. exfalso; apply C2; reflexivity.
+        - destruct b; [specialize (C1 eq_refl); lia | reflexivity].
+        - reflexivity. }
+      assert (Hhwf : forall sa', (sa' = true -> sa_of c = true) -> hwf es ct sa' (c_forked c) hd').
+      { intros sa' Himp. split.
+        - cbn [hd' h_inert h_alts h_catch]. intros Hin q' Hq'.
+          apply in_map_iff in Hq'. destruct Hq' as [[q2 s2] [Heq Hin2]]. simpl in Heq. subst q2.
+          destruct (resumes_same_stack _ _ _ _ _ _ Hin2) as [-> Hge].
+          assert (Hwk : wakes e = true) by (apply wakes_movable_stop; assumption).
+          pose proof (resumes_in_succ es (f_stk ct) p e (s_catch r) _ He Hstkp Hwk Hin2) as Hsucc.
+          split; [assumption|]. split.
+          + intros Hlt. exact (resumes_stk true es (f_rank ct) (f_stk ct) p e (s_catch r) q' (s_catch r) (fo_check _ _ _ _ _ Hf) He Hstkp Hin2 Hlt).
+          + intros Hsa'. pose proof (Himp Hsa') as Hsa. split.
+            * intros Hlt.
+              exact (clean_step es ct p q' (s_catch r) (fo_clean _ _ _ _ _ Hf) Hp (Hclp (fun Hl0 => Hsa_clean Hsa Hl0)) Hsucc Hlt).
+            * intros Hfk. destruct (Hsa_ne Hsa Hfk) as [N1 N2].
+              exact (noend_step es ct p q' (s_catch r) (fo_clean _ _ _ _ _ Hf) Hp (Hnep (conj N1 N2)) Hsucc).
+        - intros Hsa'. apply Hquiet. apply Himp. assumption. }
+      assert (Hsa' : forall st', (st' = CStarted \/ st' = c_status c) ->
+                 (negb (match st' with CStarted => true | _ => false end) && c_act c = true -> sa_of c = true)).
+      { intros st' [H0|H0]; subst st'; simpl; [discriminate|]. unfold sa_of, started. auto. }
+      split; [|split; [|split]].
+      + (* iwf *)
+        split; [cbn; assumption|]. split.
+        { cbn [c_forked c_heads]. intros Hfk. rewrite (Hnf Hfk). simpl. lia. }
+        intros _. cbn [c_flow]. exists es, ct. split; [assumption|]. split; [assumption|].
+        cbn [c_heads c_forked]. unfold sa_of, started. cbn [c_status c_act].
+        assert (Himp : negb (match (if becomes then CStarted else c_status c) with CStarted => true | _ => false end) && c_act c = true -> sa_of c = true).
+        { destruct becomes; [exact (Hsa' CStarted (or_introl eq_refl)) | exact (Hsa' (c_status c) (or_intror eq_refl))]. }
+        constructor; [apply Hhwf; assumption|].
+        eapply Forall_impl; [|exact Hothers]. intros h Hh. eapply hwf_weaken; [|exact Hh]. assumption.
+      + apply Forall_app. split; [assumption|apply ewf_note_if].
+      + apply Hewf_self.
+      + (* potential *)
+        rewrite qcost_app, Hqc, qcost_note_if, qcost_start_if.
+        unfold Cascade.ipot, listening, started. cbn [c_status c_flow c_heads c_act c_restarted].
+        rewrite Hprog, Hct. cbn [map list_sum fold_right]. unfold list_sum in *.
+        simpl in Hcost.
+        (* when the instance becomes STARTED and is activated, all its heads are inert *)
+        assert (Hallinert : becomes = true -> c_act c = true ->
+                  existsb (fun h => negb (h_inert h)) (hd' :: c_heads c) = false).
+        { intros Hb Ha. unfold becomes in Hb. apply andb_true_iff in Hb. destruct Hb as [Hb1 Hb2].
+          assert (Hsa : sa_of c = true) by (unfold sa_of; rewrite Hb1, Ha; reflexivity).
+          rewrite forallb_forall in Hb2.
+          destruct (existsb (fun h => negb (h_inert h)) (hd' :: c_heads c)) eqn:Hex; [|reflexivity].
+          apply existsb_exists in Hex. destruct Hex as [h [Hin Hni]].
+          assert (Hqh : quiet es h = true).
+          { destruct Hin as [<-|Hin]; [apply Hquiet; assumption|].
+            rewrite Forall_forall in Hothers. apply (proj2 (Hothers h Hin)). assumption. }
+          rewrite (waits_quiet_inert es h (Hb2 h Hin) Hqh) in Hni. discriminate. }
+        destruct becomes eqn:Hbec.
+        * unfold becomes in Hbec. apply andb_true_iff in Hbec. destruct Hbec as [Hb1 _].
+          unfold started in Hb1. destruct (c_status c) eqn:Hcs; try discriminate.
+          destruct (c_act c) eqn:Ha.
+          -- rewrite (Hallinert eq_refl eq_refl). rewrite andb_false_r.
              destruct (c_restarted c), (s_newinst r); simpl in *; lia.
-          -- destruct (c_act c), (c_restarted c), (s_newinst r); simpl in *; lia.
-        * eexists; split; [reflexivity|]. cbn [r_inst r_right r_left].
-          split; [apply Hiwf_rest; right; split; [reflexivity|discriminate]|].
-          split; [assumption|]. split; [apply Hewf_self|].
-          specialize (Hrestp ltac:(discriminate)).
-          rewrite Hipot, Hq, qcost_start_if. unfold Cascade.ipot, listening, started in *.
-          cbn [c_status c_inert c_flow c_pos c_act c_restarted]. rewrite Hprog, Hct.
-          destruct (c_status c); try discriminate; destruct (c_act c), (c_restarted c), (s_newinst r); simpl in *; lia.
-      + eexists; split; [reflexivity|]. cbn [r_inst r_right r_left].
-        split; [apply Hiwf_rest; right; split; [reflexivity|discriminate]|].
-        split; [assumption|]. split; [apply Hewf_self|].
-        specialize (Hrestp ltac:(discriminate)).
-        rewrite Hipot, Hq, qcost_start_if. unfold Cascade.ipot, listening, started in *.
-        cbn [c_status c_inert c_flow c_pos c_act c_restarted]. rewrite Hprog, Hct.
-        destruct (c_status c); try discriminate; destruct (c_act c), (c_restarted c), (s_newinst r); simpl in *; lia.
-    - exfalso. eapply Hnf; reflexivity.
+          -- destruct (c_restarted c), (s_newinst r); simpl in *; lia.
+        * destruct (c_status c) eqn:Hcs; try discriminate;
+            destruct (c_act c), (c_restarted c), (s_newinst r);
+            destruct (existsb (fun h => negb (h_inert h)) (hd' :: c_heads c)); simpl in *; lia.
+    - (* Forked p ts *)
+      destruct (Hstop p (or_intror (ex_intro _ ts eq_refl))) as [Hp [Hstkp [Hclp [Hnep Hp1]]]].
+      destruct (Hfrk p ts eq_refl) as [ls [He Hts]].
+      set (news := map (fun i => {| h_pos := p; h_catch := s_catch r; h_inert := false; h_alts := [S i] |}) ts) in *.
+      eexists; split; [reflexivity|]. cbn [r_inst r_right r_left].
+      assert (Hsum : list_sum (map (hpot (f_w ct) (length es)) news) + 1 <= wat (f_w ct) (length es) p).
+      { pose proof (check_w_fork prog certs (c_flow c) es ct p ls (fo_w _ _ _ _ _ Hf) He) as Hfc.
+        rewrite <- (fork_cost_ts es (f_w ct) ls ts Hts) in Hfc.
+        assert (Heq : map (hpot (f_w ct) (length es)) news = map (fun i => 1 + wat (f_w ct) (length es) (S i)) ts).
+        { unfold news. rewrite map_map. apply map_ext. intros i. unfold hpot. simpl. lia. }
+        rewrite Heq. lia. }
+      assert (Hnews : Forall (hwf es ct (sa_of c) true) news).
+      { apply Forall_forall. intros h Hh. unfold news in Hh. apply in_map_iff in Hh. destruct Hh as [i [<- Hi]].
+        pose proof (fork_resumes es (s_catch r) p ls ts i Hts Hi) as Hres.
+        pose proof (resumes_in_succ es (f_stk ct) p (EFork ls) (s_catch r) _ He Hstkp eq_refl Hres) as Hsucc.
+        split.
+        - cbn [h_inert h_alts h_catch]. intros _ q' [<-|[]]. split; [lia|]. split.
+          + intros Hlt. exact (resumes_stk true es (f_rank ct) (f_stk ct) p (EFork ls) (s_catch r) (S i) (s_catch r)
+                                           (fo_check _ _ _ _ _ Hf) He Hstkp Hres Hlt).
+          + intros Hsa.
+            assert (Hcp : nth p (f_clean ct) false = true) by (apply Hclp; intros Hl0; apply Hsa_clean; assumption).
+            destruct (clean_elem es ct p (EFork ls) (fo_clean _ _ _ _ _ Hf) Hcp He) as [_ [_ C3]].
+            split.
+            * intros Hlt. exact (clean_step es ct p (S i) (s_catch r) (fo_clean _ _ _ _ _ Hf) Hp Hcp Hsucc Hlt).
+            * intros _. exact (C3 ls (S i) (s_catch r) eq_refl Hsucc).
+        - intros _. unfold quiet. cbn [h_pos]. rewrite He. reflexivity. }
+      split; [|split; [|split]].
+      + split; [cbn; assumption|]. split; [cbn; discriminate|].
+        intros _. cbn [c_flow]. exists es, ct. split; [assumption|]. split; [assumption|].
+        cbn [c_heads c_forked]. unfold sa_of, started. cbn [c_status c_act]. fold (started c). fold (sa_of c).
+        apply Forall_app. split; [assumption|].
+        destruct (c_forked c) eqn:Hfk; [assumption|]. rewrite (Hnf eq_refl). constructor.
+      + assumption.
+      + apply Hewf_self.
+      + rewrite Hqc, qcost_start_if.
+        unfold Cascade.ipot, listening, started. cbn [c_status c_flow c_heads c_act c_restarted].
+        rewrite Hprog, Hct. rewrite map_app, list_sum_app. unfold list_sum in *. simpl in Hcost.
+        destruct (c_status c) eqn:Hcs; try discriminate;
+          destruct (c_act c), (c_restarted c), (s_newinst r);
+          destruct (existsb (fun h => negb (h_inert h)) (news ++ c_heads c)); simpl in *; lia.
     - (* Ended *)
-      unfold listening in Hl.
       destruct (negb (started c) && c_act c) eqn:Hg.
+      + (* immediate-finish guard: only possible for an instance that never forked *)
+        assert (Hsa : sa_of c = true) by exact Hg.
+        assert (Hnofork : c_forked c = false).
+        { destruct (c_forked c) eqn:Hfk; [|reflexivity]. exfalso.
+          destruct (Hsa_ne Hsa eq_refl) as [N1 N2]. apply (Hnoend (conj N1 N2)). reflexivity. }
+        eexists; split; [reflexivity|]. cbn [r_inst r_right r_left].
+        split; [|split; [|split]].
+        * split; [cbn; assumption|]. split; [cbn; intros _; rewrite (Hnf Hnofork); simpl; lia|].
+          intros _. cbn [c_flow]. exists es, ct. split; [assumption|]. split; [assumption|].
+          cbn [c_heads]. rewrite (Hnf Hnofork). constructor.
+        * apply Forall_app. split; [assumption|repeat constructor].
+        * apply Hewf_self.
+        * rewrite qcost_app, Hqc, qcost_note, qcost_start_if.
+          unfold Cascade.ipot, listening, started in *. cbn [c_status c_flow c_heads c_act c_restarted].
+          rewrite Hprog, Hct. rewrite (Hnf Hnofork). simpl in Hcost. unfold list_sum. simpl.
+          destruct (c_status c); try discriminate; destruct (c_act c), (c_restarted c), (s_newinst r); simpl in *; try discriminate; lia.
       + eexists; split; [reflexivity|]. cbn [r_inst r_right r_left].
-        split; [apply iwf_inert; [simpl; assumption|reflexivity]|].
-        split; [apply Forall_app; split; [assumption|repeat constructor]|].
-        split; [apply Hewf_self|].
-        rewrite Hipot, qcost_app, Hq, qcost_note, qcost_start_if. unfold Cascade.ipot, listening, started in *.
-        cbn [c_status c_inert].
-        destruct (c_status c); try discriminate; destruct (c_act c), (c_restarted c), (s_newinst r); simpl in *; try discriminate; lia.
-      + eexists; split; [reflexivity|]. cbn [r_inst r_right r_left].
-        split; [apply iwf_dead; [simpl; assumption|reflexivity]|].
-        split; [apply Forall_app; split; [assumption|apply Forall_app; split; [apply ewf_note_if|repeat constructor]]|].
-        split; [apply Forall_app; split; apply Hewf_self|].
-        rewrite Hipot, !qcost_app, Hq, qcost_note, qcost_note_if, !qcost_start_if. unfold Cascade.ipot, listening, started in *.
-        cbn [c_status].
-        destruct (c_status c); try discriminate; destruct (c_act c), (c_restarted c), (s_newinst r); simpl in *; try discriminate; lia.
+        split; [|split; [|split]].
+        * split; [cbn; assumption|]. split; [cbn; intros _; lia|]. cbn. discriminate.
+        * apply Forall_app. split; [assumption|apply Forall_app; split; [apply ewf_note_if|repeat constructor]].
+        * apply Forall_app; split; apply Hewf_self.
+        * rewrite !qcost_app, Hqc, qcost_note, qcost_note_if, !qcost_start_if.
+          unfold Cascade.ipot, listening, dead_inst, started in *. cbn [c_status]. simpl in Hcost.
+          assert (0 <= list_sum (map (hpot (f_w ct) (length es)) (c_heads c))) by lia.
+          destruct (c_status c); try discriminate; destruct (c_act c), (c_restarted c), (s_newinst r); simpl in *; try discriminate; lia.
     - (* Aborted *)
-      unfold listening in Hl.
       eexists; split; [reflexivity|]. cbn [r_inst r_right r_left fail_inst].
-      split; [apply iwf_dead; [simpl; assumption|reflexivity]|].
-      split; [apply Forall_app; split; [assumption|repeat constructor]|].
-      split; [apply Forall_app; split; apply Hewf_self|].
-      rewrite Hipot, !qcost_app, Hq, !qcost_start_if. unfold Cascade.ipot, listening, started in *.
-      cbn [c_status].
-      destruct (c_status c); try discriminate; destruct (c_act c), (c_restarted c), (s_newinst r); simpl in *; try discriminate;
-        unfold Cascade_proofs.qcost; simpl; lia.
+      split; [|split; [|split]].
+      + split; [cbn; assumption|]. split; [cbn; intros _; lia|]. cbn. discriminate.
+      + apply Forall_app. split; [assumption|repeat constructor].
+      + apply Forall_app; split; apply Hewf_self.
+      + rewrite !qcost_app, Hqc, !qcost_start_if.
+        unfold Cascade.ipot, listening, dead_inst, guard_ok, started in *. cbn [c_status]. simpl in Hcost.
+        destruct (c_status c); try discriminate; destruct (c_act c), (c_restarted c), (s_newinst r); simpl in *; try discriminate;
+          unfold Cascade_proofs.qcost; simpl; lia.
     - (* Raised *)
-      unfold listening in Hl.
       eexists; split; [reflexivity|]. cbn [r_inst r_right r_left fail_inst].
-      split; [apply iwf_dead; [simpl; assumption|reflexivity]|].
-      split; [apply Forall_app; split; [assumption|repeat constructor]|].
-      split; [apply Forall_app; split; apply Hewf_self|].
-      rewrite Hipot, !qcost_app, Hq, !qcost_start_if. unfold Cascade.ipot, listening, started in *.
-      cbn [c_status].
-      destruct (c_status c); try discriminate; destruct (c_act c), (c_restarted c), (s_newinst r); simpl in *; try discriminate;
-        unfold Cascade_proofs.qcost; simpl; lia.
+      split; [|split; [|split]].
+      + split; [cbn; assumption|]. split; [cbn; intros _; lia|]. cbn. discriminate.
+      + apply Forall_app. split; [assumption|repeat constructor].
+      + apply Forall_app; split; apply Hewf_self.
+      + rewrite !qcost_app, Hqc, !qcost_start_if.
+        unfold Cascade.ipot, listening, dead_inst, guard_ok, started in *. cbn [c_status]. simpl in Hcost.
+        destruct (c_status c); try discriminate; destruct (c_act c), (c_restarted c), (s_newinst r); simpl in *; try discriminate;
+          unfold Cascade_proofs.qcost; simpl; lia.
     - exfalso. apply Hno. reflexivity.
   Qed.
 
@@ -539,6 +726,10 @@ Section Steps.
   Local Notation swf := (swf prog certs).
   Local Notation phi := (phi prog certs).
 
+  Definition good (c : cinst) (ro : rout) : Prop :=
+    iwf (r_inst ro) /\ Forall ewf (r_right ro) /\ Forall ewf (r_left ro) /\
+    ipot (r_inst ro) + qcost (r_right ro) + qcost (r_left ro) + 1 <= ipot c.
+
   Lemma apply_good : forall st i c ro,
     swf st -> nth_error (c_insts st) i = Some c -> good c ro ->
     swf (apply_rout st i ro) /\ phi (apply_rout st i ro) + 1 <= phi st.
@@ -556,131 +747,380 @@ Section Steps.
       lia.
   Qed.
 
-  Lemma movable_es : forall c, movable prog c = true ->
-    listening c = true /\ c_inert c = false /\ exists es, nth_error prog (c_flow c) = Some es.
+  (* list facts about removing / filtering heads *)
+  Lemma remove_nth_sum : forall (f : chead -> nat) l j h,
+    nth_error l j = Some h -> list_sum (map f l) = f h + list_sum (map f (remove_nth l j)).
   Proof.
-    intros c H. unfold movable in H. apply andb_true_iff in H. destruct H as [H H3].
-    apply andb_true_iff in H. destruct H as [H1 H2]. apply negb_true_iff in H2.
-    split; [assumption|]. split; [assumption|].
-    unfold at_stop in H3. destruct (nth_error prog (c_flow c)); [eauto|discriminate].
+    induction l as [|x l IH]; intros j h H; [destruct j; discriminate|].
+    destruct j as [|j]; simpl in *.
+    - inversion H; subst. reflexivity.
+    - rewrite (IH j h H). lia.
+  Qed.
+
+  Lemma remove_nth_incl : forall A (l : list A) j x, In x (remove_nth l j) -> In x l.
+  Proof.
+    induction l as [|y l IH]; intros j x H; [destruct j; destruct H|].
+    destruct j; simpl in *; [right; assumption|]. destruct H as [H|H]; [left; assumption|right; eapply IH; eauto].
+  Qed.
+
+  Lemma remove_nth_length : forall A (l : list A) j h, nth_error l j = Some h -> length l = S (length (remove_nth l j)).
+  Proof.
+    induction l as [|y l IH]; intros j h H; [destruct j; discriminate|].
+    destruct j; simpl in *; [reflexivity|]. rewrite (IH j h H). reflexivity.
+  Qed.
+
+  Definition keep_filter (keep : nat -> bool) (l : list chead) : list chead :=
+    map snd (filter (fun kh => keep (fst kh)) (combine (seq 0 (length l)) l)).
+
+  Lemma keep_filter_gen : forall (f : chead -> nat) keep l n,
+    let r := map snd (filter (fun kh : nat * chead => keep (fst kh)) (combine (seq n (length l)) l)) in
+    list_sum (map f r) <= list_sum (map f l) /\ length r <= length l /\ (forall x, In x r -> In x l).
+  Proof.
+    intros f keep. induction l as [|h l IH]; intros n; simpl; [repeat split; auto; intros x []|].
+    destruct (IH (S n)) as [A [B C]]. destruct (keep n); simpl; repeat split; try lia.
+    - intros x [Hx|Hx]; [left; assumption|right; apply C; assumption].
+    - intros x Hx. right. apply C. assumption.
+  Qed.
+
+  (* the premises of run_head_pot for a movable head j of a well-formed instance, after some of the
+     other heads were removed *)
+  Lemma head_good : forall c j hd q es ct o others,
+    iwf c -> listening c = true -> nth_error prog (c_flow c) = Some es -> flow_ok prog certs (c_flow c) es ct ->
+    nth_error (c_heads c) j = Some hd -> h_inert hd = false -> In q (h_alts hd) ->
+    (forall x, In x others -> In x (remove_nth (c_heads c) j)) ->
+    list_sum (map (hpot (f_w ct) (length es)) others) <= list_sum (map (hpot (f_w ct) (length es)) (remove_nth (c_heads c) j)) ->
+    length others <= length (remove_nth (c_heads c) j) ->
+    exists ro, run_head true es o (with_heads c others) hd q = Some ro /\ good c ro.
+  Proof.
+    intros c j hd q es ct o others [Hactv [Hnf Hwf]] Hl Hprog Hf Hj Hmov Hq Hincl Hsum Hlen.
+    destruct (Hwf Hl) as [es' [ct' [Hp' [Hf' Hall]]]].
+    rewrite Hprog in Hp'. inversion Hp'; subst es'. clear Hp'.
+    assert (ct' = ct) by (pose proof (fo_cert _ _ _ _ _ Hf); pose proof (fo_cert _ _ _ _ _ Hf'); congruence). subst ct'.
+    rewrite Forall_forall in Hall.
+    assert (Hhd : hwf es ct (sa_of c) (c_forked c) hd) by (apply Hall; eapply nth_error_In; eauto).
+    assert (Hoth : Forall (hwf es ct (sa_of (with_heads c others)) (c_forked (with_heads c others))) (c_heads (with_heads c others))).
+    { apply Forall_forall. intros x Hx. apply Hall. eapply remove_nth_incl. apply Hincl. assumption. }
+    assert (Hnf' : c_forked (with_heads c others) = false -> c_heads (with_heads c others) = []).
+    { cbn. intros Hfk. specialize (Hnf Hfk). pose proof (remove_nth_length _ _ _ _ Hj) as Hlj.
+      destruct others; [reflexivity|]. simpl in Hlen. lia. }
+    destruct (run_head_pot (with_heads c others) hd q es ct o Hprog Hf Hl Hactv Hnf' Hoth Hhd Hmov Hq)
+      as [ro [Hr [G1 [G2 [G3 G4]]]]].
+    exists ro. split; [assumption|]. split; [assumption|]. split; [assumption|]. split; [assumption|].
+    eapply Nat.le_trans; [exact G4|]. unfold good_bound. cbn [with_heads c_heads c_act c_restarted c_flow started c_status].
+    fold (started c).
+    pose proof (fo_cert _ _ _ _ _ Hf) as Hct.
+    unfold Cascade.ipot. rewrite Hl, Hprog, Hct.
+    rewrite (remove_nth_sum (hpot (f_w ct) (length es)) (c_heads c) j hd Hj).
+    assert (Hh : 1 + wat (f_w ct) (length es) q <= hpot (f_w ct) (length es) hd).
+    { unfold hpot. rewrite Hmov.
+      assert (wat (f_w ct) (length es) q <= list_max (map (wat (f_w ct) (length es)) (h_alts hd))).
+      { assert (Hin : In (wat (f_w ct) (length es) q) (map (wat (f_w ct) (length es)) (h_alts hd))) by (apply in_map; assumption).
+        revert Hin. generalize (map (wat (f_w ct) (length es)) (h_alts hd)) (wat (f_w ct) (length es) q). clear.
+        induction l as [|x l IH]; intros n Hin; [destruct Hin|]. destruct Hin as [Hx|H]; simpl; [subst; lia|]. specialize (IH n H). lia. }
+      lia. }
+    assert (Hex : existsb (fun h => negb (h_inert h)) (c_heads c) = true).
+    { apply existsb_exists. exists hd. split; [eapply nth_error_In; eauto|]. rewrite Hmov. reflexivity. }
+    rewrite Hex, andb_true_r. change (started (with_heads c others)) with (started c). lia.
+  Qed.
+
+  (* removing heads from a well-formed instance *)
+  Lemma subheads_iwf : forall c others,
+    iwf c -> (forall x, In x others -> In x (c_heads c)) -> length others <= length (c_heads c) ->
+    iwf (with_heads c others).
+  Proof.
+    intros c others [Ha [Hnf Hw]] Hincl Hlen. split; [exact Ha|]. split.
+    - cbn. intros Hfk. specialize (Hnf Hfk). lia.
+    - intros Hl. destruct (Hw Hl) as [es [ct [Hp [Hf Hall]]]]. exists es, ct. split; [exact Hp|]. split; [exact Hf|].
+      cbn [with_heads c_heads c_forked]. change (sa_of (with_heads c others)) with (sa_of c).
+      rewrite Forall_forall in *. intros x Hx. apply Hall. apply Hincl. assumption.
+  Qed.
+
+  Lemma ipot_listening : forall c es ct, listening c = true ->
+    nth_error prog (c_flow c) = Some es -> nth_error certs (c_flow c) = Some ct ->
+    ipot c = 2 + (if started c then 0 else 1) + list_sum (map (hpot (f_w ct) (length es)) (c_heads c)) +
+             (if c_act c && negb (c_restarted c) && started c && existsb (fun h => negb (h_inert h)) (c_heads c)
+              then 1 + newpot prog certs (c_flow c) else 0).
+  Proof. intros c es ct Hl Hp Hc. unfold Cascade.ipot. rewrite Hl, Hp, Hc. lia. Qed.
+
+  Lemma hpot_movable : forall w len h, h_inert h = false -> 1 <= hpot w len h.
+  Proof. intros w len h H. unfold hpot. rewrite H. lia. Qed.
+
+  (* dropping a movable head *)
+  Lemma drop_good : forall c j hd others,
+    iwf c -> listening c = true -> nth_error (c_heads c) j = Some hd -> h_inert hd = false ->
+    (forall x, In x others -> In x (remove_nth (c_heads c) j)) ->
+    (forall f : chead -> nat, list_sum (map f others) <= list_sum (map f (remove_nth (c_heads c) j))) ->
+    length others <= length (remove_nth (c_heads c) j) ->
+    good c {| r_inst := with_heads c others; r_right := []; r_left := [] |}.
+  Proof.
+    intros c j hd others Hc Hl Hj Hmov Hincl Hsum Hlen. unfold good. cbn [r_inst r_right r_left].
+    pose proof (remove_nth_length _ _ _ _ Hj) as Hlj.
+    split; [apply subheads_iwf; [assumption| |lia]|].
+    { intros x Hx. eapply remove_nth_incl. apply Hincl. assumption. }
+    split; [constructor|]. split; [constructor|].
+    destruct Hc as [Ha [Hnf Hw]]. destruct (Hw Hl) as [es [ct [Hp [Hf Hall]]]].
+    pose proof (fo_cert _ _ _ _ _ Hf) as Hct.
+    rewrite (ipot_listening c es ct Hl Hp Hct).
+    rewrite (ipot_listening (with_heads c others) es ct Hl Hp Hct).
+    cbn [with_heads c_heads c_act c_restarted c_flow]. change (started (with_heads c others)) with (started c).
+    rewrite (remove_nth_sum (hpot (f_w ct) (length es)) (c_heads c) j hd Hj).
+    pose proof (hpot_movable (f_w ct) (length es) hd Hmov).
+    pose proof (Hsum (hpot (f_w ct) (length es))).
+    assert (Hex : existsb (fun h => negb (h_inert h)) (c_heads c) = true).
+    { apply existsb_exists. exists hd. split; [eapply nth_error_In; eauto|]. rewrite Hmov. reflexivity. }
+    rewrite Hex, andb_true_r. unfold Cascade_proofs.qcost. simpl.
+    destruct (c_act c && negb (c_restarted c) && started c);
+      destruct (existsb (fun h => negb (h_inert h)) others); simpl; lia.
   Qed.
 
   Lemma kill_good : forall c, iwf c -> listening c = true -> good c (kill_inst c).
   Proof.
-    intros c [Ha Hw] Hl. unfold good, kill_inst. cbn [r_inst r_right r_left].
-    split; [apply iwf_dead; [simpl; assumption|reflexivity]|].
+    intros c [Ha [Hnf Hw]] Hl. unfold good, kill_inst. cbn [r_inst r_right r_left].
+    split; [split; [cbn; assumption|split; [cbn; intros _; lia|cbn; discriminate]]|].
     split; [repeat constructor|]. split; [constructor|].
-    unfold Cascade.ipot at 1. unfold listening at 1. cbn [c_status].
+    unfold Cascade.ipot at 1. unfold listening at 1. cbn [dead_inst c_status].
     unfold Cascade.ipot. rewrite Hl. unfold Cascade_proofs.qcost. simpl. lia.
   Qed.
 
-  Lemma fail_good : forall c, iwf c -> movable prog c = true ->
-    good c (fail_inst true c false (c_restarted c) (c_pos c) (c_catch c)).
+  (* the flow fails by itself with a movable head: restart only if allowed and paid for *)
+  Lemma fail_good : forall c j hd may,
+    iwf c -> listening c = true -> nth_error (c_heads c) j = Some hd -> h_inert hd = false ->
+    (may = true -> c_act c = true -> started c = true) ->
+    good c (fail_inst c may false (c_restarted c)).
   Proof.
-    intros c [Ha Hw] Hm. destruct (movable_es c Hm) as [Hl [Hi [es Hes]]].
-    destruct (Hw Hl Hi) as [es' [ct [cl [Hp' [Hf _]]]]].
-    pose proof (fo_cert _ _ _ _ _ _ Hf) as Hct.
+    intros c j hd may [Ha [Hnf Hw]] Hl Hj Hmov Hmay.
+    destruct (Hw Hl) as [es [ct [Hp [Hf Hall]]]].
+    pose proof (fo_cert _ _ _ _ _ Hf) as Hct.
     unfold good, fail_inst. cbn [r_inst r_right r_left].
-    split; [apply iwf_dead; [simpl; assumption|reflexivity]|].
+    split; [split; [cbn; assumption|split; [cbn; intros _; lia|cbn; discriminate]]|].
     split; [repeat constructor|]. split; [apply ewf_start_if; assumption|].
-    unfold Cascade.ipot at 1. unfold listening at 1. cbn [c_status].
-    rewrite qcost_start_if.
-    unfold Cascade.ipot. rewrite Hl, Hi, Hp', Hct. unfold Cascade_proofs.qcost. simpl.
-    destruct (c_act c), (c_restarted c), (started c); simpl; lia.
+    unfold Cascade.ipot at 1. unfold listening at 1. cbn [dead_inst c_status].
+    rewrite qcost_start_if. rewrite (ipot_listening c es ct Hl Hp Hct).
+    rewrite (remove_nth_sum (hpot (f_w ct) (length es)) (c_heads c) j hd Hj).
+    pose proof (hpot_movable (f_w ct) (length es) hd Hmov).
+    assert (Hex : existsb (fun h => negb (h_inert h)) (c_heads c) = true).
+    { apply existsb_exists. exists hd. split; [eapply nth_error_In; eauto|]. rewrite Hmov. reflexivity. }
+    rewrite Hex, andb_true_r. unfold Cascade_proofs.qcost. simpl.
+    destruct (c_act c) eqn:Hact, (c_restarted c), may; simpl; try lia;
+      rewrite (Hmay eq_refl eq_refl); simpl; lia.
   Qed.
 
-  Lemma react_inst_ok : forall orc rc st i,
-    swf st -> exists st', react_inst true prog orc rc st i = COk st' /\ swf st' /\ phi st' <= phi st /\
-                          length (c_insts st') = length (c_insts st).
+  Lemma inst_iwf : forall st i c, swf st -> nth_error (c_insts st) i = Some c -> iwf c.
+  Proof. intros st i c [Hs _] Hn. rewrite Forall_forall in Hs. apply Hs. eapply nth_error_In; eauto. Qed.
+
+  Lemma flow_of : forall c, iwf c -> listening c = true ->
+    forall es, nth_error prog (c_flow c) = Some es -> exists ct, flow_ok prog certs (c_flow c) es ct.
   Proof.
-    intros orc rc st i Hs. unfold react_inst.
-    destruct (nth_error (c_insts st) i) as [c|] eqn:Hn; [|exists st; auto].
-    assert (Hc : iwf c).
-    { destruct Hs as [Hs _]. rewrite Forall_forall in Hs. apply Hs. eapply nth_error_In; eauto. }
-    assert (Hlen : forall ro, length (c_insts (apply_rout st i ro)) = length (c_insts st)).
-    { intros ro. simpl. clear. generalize i. induction (c_insts st); destruct i0; simpl; auto. }
+    intros c [_ [_ Hw]] Hl es Hp. destruct (Hw Hl) as [es' [ct [Hp' [Hf _]]]].
+    rewrite Hp in Hp'. inversion Hp'; subst. eauto.
+  Qed.
+
+  (* every reaction of a head keeps the state well-formed and does not increase the potential;
+     `strict`: if the head exists, is movable and the reaction is not RIgnore, it decreases *)
+  Ltac same_state st Hs :=
+    exists st; split; [reflexivity|split; [exact Hs|split; [lia|intros; congruence]]].
+
+  Lemma react_head_ok : forall orc keep rc st i j,
+    swf st -> exists st', react_head true prog orc keep rc st i j = COk st' /\ swf st' /\ phi st' <= phi st /\
+      (forall c hd es, nth_error (c_insts st) i = Some c -> nth_error (c_heads c) j = Some hd ->
+                       nth_error prog (c_flow c) = Some es -> movable c hd = true ->
+                       rc <> RIgnore -> phi st' + 1 <= phi st).
+  Proof.
+    intros orc keep rc st i j Hs. unfold react_head.
+    destruct (nth_error (c_insts st) i) as [c|] eqn:Hn.
+    2:{ same_state st Hs. }
+    pose proof (inst_iwf st i c Hs Hn) as Hc.
+    assert (Hkill : forall (Hl : listening c = true),
+              exists st', COk (apply_rout st i (kill_inst c)) = COk st' /\ swf st' /\ phi st' + 1 <= phi st).
+    { intros Hl. destruct (apply_good st i c _ Hs Hn (kill_good c Hc Hl)) as [A B]. eauto. }
     destruct rc.
-    - exists st; auto.
-    - destruct (movable prog c) eqn:Hm; [|exists st; auto].
-      destruct (movable_es c Hm) as [Hl [Hi [es Hes]]]. rewrite Hes.
-      destruct (run_inst_pot c es (orc (c_tick st)) Hc Hl Hi Hes) as [ro [Hr Hg]].
-      rewrite Hr. destruct (apply_good st i c ro Hs Hn Hg) as [A B].
-      eexists; split; [reflexivity|]. split; [assumption|]. split; [lia|apply Hlen].
-    - destruct (movable prog c) eqn:Hm; [|exists st; auto].
-      destruct (apply_good st i c _ Hs Hn (fail_good c Hc Hm)) as [A B].
-      eexists; split; [reflexivity|]. split; [assumption|]. split; [lia|apply Hlen].
-    - destruct (listening c) eqn:Hl; [|exists st; auto].
-      destruct (apply_good st i c _ Hs Hn (kill_good c Hc Hl)) as [A B].
-      eexists; split; [reflexivity|]. split; [assumption|]. split; [lia|apply Hlen].
+    - same_state st Hs.
+    - (* RAdvance *)
+      destruct (nth_error (c_heads c) j) as [hd|] eqn:Hj.
+      2:{ same_state st Hs. }
+      destruct (nth_error prog (c_flow c)) as [es|] eqn:Hp.
+      2:{ same_state st Hs. }
+      destruct (movable c hd) eqn:Hm.
+      2:{ same_state st Hs. }
+      unfold movable in Hm. apply andb_true_iff in Hm. destruct Hm as [Hl Hmov]. apply negb_true_iff in Hmov.
+      destruct (flow_of c Hc Hl es Hp) as [ct Hf].
+      set (others := remove_nth (c_heads c) j) in *.
+      set (others' := match nth_error es (h_pos hd) with
+                      | Some (EBlock BMerge) => map snd (filter (fun kh : nat * chead => keep (fst kh)) (combine (seq 0 (length others)) others))
+                      | _ => others
+                      end).
+      assert (Ho : (forall x, In x others' -> In x others) /\
+                   (forall f : chead -> nat, list_sum (map f others') <= list_sum (map f others)) /\
+                   length others' <= length others).
+      { unfold others'. destruct (nth_error es (h_pos hd)) as [[[]| | | | | | | | | | |]|]; try (repeat split; auto; fail).
+        split; [|split].
+        - intros x Hx. exact (proj2 (proj2 (keep_filter_gen (fun _ => 0) keep others 0)) x Hx).
+        - intros f0. exact (proj1 (keep_filter_gen f0 keep others 0)).
+        - exact (proj1 (proj2 (keep_filter_gen (fun _ => 0) keep others 0))). }
+      destruct Ho as [Ho1 [Ho2 Ho3]].
+      destruct (nth_error (h_alts hd) 0) as [q|] eqn:Hq.
+      + assert (Hqin : In q (h_alts hd)) by (eapply nth_error_In; eauto).
+        destruct (head_good c j hd q es ct (orc (c_tick st)) others' Hc Hl Hp Hf Hj Hmov Hqin Ho1 (Ho2 _) Ho3) as [ro [Hr Hg]].
+        fold others'. rewrite Hr. destruct (apply_good st i c ro Hs Hn Hg) as [A B].
+        eexists; split; [reflexivity|]. split; [exact A|]. split; [lia|]. intros; lia.
+      + fold others'.
+        destruct (apply_good st i c _ Hs Hn (drop_good c j hd others Hc Hl Hj Hmov (fun x H => H) (fun f => le_n _) (le_n _))) as [A B].
+        eexists; split; [reflexivity|]. split; [exact A|]. split; [lia|]. intros; lia.
+    - (* RFail *)
+      destruct (nth_error (c_heads c) j) as [hd|] eqn:Hj.
+      2:{ same_state st Hs. }
+      destruct (nth_error prog (c_flow c)) as [es|] eqn:Hp.
+      2:{ same_state st Hs. }
+      destruct (movable c hd) eqn:Hm.
+      2:{ same_state st Hs. }
+      unfold movable in Hm. apply andb_true_iff in Hm. destruct Hm as [Hl Hmov]. apply negb_true_iff in Hmov.
+      destruct (flow_of c Hc Hl es Hp) as [ct Hf].
+      set (others := remove_nth (c_heads c) j) in *.
+      set (others' := match nth_error es (h_pos hd) with
+                      | Some (EBlock BMerge) => map snd (filter (fun kh : nat * chead => keep (fst kh)) (combine (seq 0 (length others)) others))
+                      | _ => others
+                      end).
+      assert (Ho : (forall x, In x others' -> In x others) /\
+                   (forall f : chead -> nat, list_sum (map f others') <= list_sum (map f others)) /\
+                   length others' <= length others).
+      { unfold others'. destruct (nth_error es (h_pos hd)) as [[[]| | | | | | | | | | |]|]; try (repeat split; auto; fail).
+        split; [|split].
+        - intros x Hx. exact (proj2 (proj2 (keep_filter_gen (fun _ => 0) keep others 0)) x Hx).
+        - intros f0. exact (proj1 (keep_filter_gen f0 keep others 0)).
+        - exact (proj1 (proj2 (keep_filter_gen (fun _ => 0) keep others 0))). }
+      destruct Ho as [Ho1 [Ho2 Ho3]].
+      destruct (nth_error (h_alts hd) 1) as [q|] eqn:Hq.
+      + assert (Hqin : In q (h_alts hd)) by (eapply nth_error_In; eauto).
+        destruct (head_good c j hd q es ct (orc (c_tick st)) others' Hc Hl Hp Hf Hj Hmov Hqin Ho1 (Ho2 _) Ho3) as [ro [Hr Hg]].
+        fold others'. rewrite Hr. destruct (apply_good st i c ro Hs Hn Hg) as [A B].
+        eexists; split; [reflexivity|]. split; [exact A|]. split; [lia|]. intros; lia.
+      + assert (Hg : good c (fail_inst c (guard_ok true c) false (c_restarted c))).
+        { eapply (fail_good c j hd); eauto. }
+        destruct (apply_good st i c _ Hs Hn Hg) as [A B].
+        eexists; split; [reflexivity|]. split; [exact A|]. split; [lia|]. intros; lia.
+    - (* RKill *)
+      destruct (listening c) eqn:Hl.
+      + destruct (Hkill eq_refl) as [st' [E [A B]]]. exists st'. split; [assumption|]. split; [assumption|]. split; [lia|]. intros; lia.
+      + exists st. split; [reflexivity|]. split; [exact Hs|]. split; [lia|].
+        intros c0 hd0 es0 H1 H2 H3 H4. inversion H1; subst c0.
+        unfold movable in H4. rewrite Hl in H4. discriminate.
   Qed.
 
-  Lemma react_advance_dec : forall orc st i c,
-    swf st -> nth_error (c_insts st) i = Some c -> movable prog c = true ->
-    exists st', react_inst true prog orc RAdvance st i = COk st' /\ swf st' /\ phi st' + 1 <= phi st.
+  Lemma react_all_ok : forall orc keep react idx st,
+    swf st -> exists st', react_all true prog orc keep react idx st = COk st' /\ swf st' /\ phi st' <= phi st.
   Proof.
-    intros orc st i c Hs Hn Hm. unfold react_inst. rewrite Hn, Hm.
-    assert (Hc : iwf c).
-    { destruct Hs as [Hs _]. rewrite Forall_forall in Hs. apply Hs. eapply nth_error_In; eauto. }
-    destruct (movable_es c Hm) as [Hl [Hi [es Hes]]]. rewrite Hes.
-    destruct (run_inst_pot c es (orc (c_tick st)) Hc Hl Hi Hes) as [ro [Hr Hg]].
-    rewrite Hr. destruct (apply_good st i c ro Hs Hn Hg) as [A B].
-    eexists; split; [reflexivity|]. split; assumption.
-  Qed.
-
-  Lemma react_all_ok : forall orc react idx st,
-    swf st -> exists st', react_all true prog orc react idx st = COk st' /\ swf st' /\ phi st' <= phi st.
-  Proof.
-    intros orc react. induction idx as [|i idx IH]; intros st Hs; simpl.
+    intros orc keep react. induction idx as [|[i j] idx IH]; intros st Hs; simpl.
     - exists st; auto.
-    - destruct (react_inst_ok orc (react i) st i Hs) as [st1 [H1 [S1 [P1 _]]]]. rewrite H1.
+    - destruct (react_head_ok orc (keep (c_tick st)) (react i j) st i j Hs) as [st1 [H1 [S1 [P1 _]]]]. rewrite H1.
       destruct (IH st1 S1) as [st2 [H2 [S2 P2]]]. exists st2. split; [assumption|]. split; [assumption|lia].
   Qed.
 
-  Lemma find_actionable_spec : forall l i k,
-    find_actionable prog l i = Some k ->
-    exists c, nth_error l (k - i) = Some c /\ i <= k /\ movable prog c = true.
+  Lemma find_in_heads_spec : forall p es c hs j k,
+    find_in_heads p es c hs j = Some k ->
+    exists hd e, nth_error hs (k - j) = Some hd /\ j <= k /\ movable c hd = true /\
+                 nth_error es (h_pos hd) = Some e /\ p e = true.
   Proof.
-    induction l as [|c l IH]; intros i k H; simpl in H; [discriminate|].
-    match type of H with (if ?b then _ else _) = _ => destruct b eqn:Hb end.
-    - inversion H; subst. rewrite Nat.sub_diag. exists c. split; [reflexivity|]. split; [lia|].
-      apply andb_true_iff in Hb. destruct Hb as [Hb1 Hb2]. unfold movable. rewrite Hb1. simpl.
-      unfold at_stop. destruct (nth_error prog (c_flow c)) as [es|]; [|discriminate].
-      destruct (nth_error es (c_pos c)) as [e|]; [|discriminate].
-      destruct e; try discriminate. reflexivity.
-    - destruct (IH (S i) k H) as [c' [Hn [Hle Hm]]]. exists c'. split; [|split; [lia|assumption]].
-      replace (k - i) with (S (k - S i)) by lia. simpl. assumption.
+    induction hs as [|h hs IH]; intros j k H; simpl in H; [discriminate|].
+    destruct (movable c h && match nth_error es (h_pos h) with Some e => p e | None => false end) eqn:Hb.
+    - inversion H; subst. rewrite Nat.sub_diag. apply andb_true_iff in Hb. destruct Hb as [Hb1 Hb2].
+      destruct (nth_error es (h_pos h)) as [e|] eqn:He; [|discriminate]. exists h, e. repeat split; auto.
+    - destruct (IH (S j) k H) as [hd [e [Hn [Hle [Hm [He Hp]]]]]]. exists hd, e.
+      split; [|repeat split; auto; lia]. replace (k - j) with (S (k - S j)) by lia. exact Hn.
+  Qed.
+
+  Lemma find_head_spec : forall p l i a j,
+    find_head p prog l i = Some (a, j) ->
+    exists c es hd e, nth_error l (a - i) = Some c /\ i <= a /\ nth_error prog (c_flow c) = Some es /\
+      nth_error (c_heads c) j = Some hd /\ movable c hd = true /\ nth_error es (h_pos hd) = Some e /\ p e = true.
+  Proof.
+    induction l as [|c l IH]; intros i a j H; simpl in H; [discriminate|].
+    destruct (nth_error prog (c_flow c)) as [es|] eqn:Hp.
+    - destruct (find_in_heads p es c (c_heads c) 0) as [k|] eqn:Hf.
+      + inversion H; subst. rewrite Nat.sub_diag.
+        destruct (find_in_heads_spec _ _ _ _ _ _ Hf) as [hd [e [Hn [_ [Hm [He Hpe]]]]]]. rewrite Nat.sub_0_r in Hn.
+        exists c, es, hd, e. repeat split; auto.
+      + destruct (IH (S i) a j H) as [c' [es' [hd [e [Hn [Hle R]]]]]]. exists c', es', hd, e.
+        split; [|split; [lia|exact R]]. replace (a - i) with (S (a - S i)) by lia. exact Hn.
+    - destruct (IH (S i) a j H) as [c' [es' [hd [e [Hn [Hle R]]]]]]. exists c', es', hd, e.
+      split; [|split; [lia|exact R]]. replace (a - i) with (S (a - S i)) by lia. exact Hn.
   Qed.
 
   Lemma fresh_iwf : forall f a es, nth_error prog f = Some es -> (a = true -> activatable prog f = true) -> iwf (fresh f a).
   Proof.
-    intros f a es Hes Ha. split; [simpl; assumption|]. intros _ _. cbn [fresh c_flow c_pos c_catch c_act].
-    destruct (cert_ok_flow prog certs cleans f es Hok Hes) as [ct [cl Hf]].
-    exists es, ct, cl. split; [assumption|]. split; [assumption|].
-    destruct (fo_head _ _ _ _ _ _ Hf) as [tl Htl].
-    split; [subst es; simpl; lia|]. split; [apply (fo_stk0 _ _ _ _ _ _ Hf)|].
-    exists (EWaitInt true). split; [subst es; reflexivity|]. split; [reflexivity|].
-    intros _ Hact. split; [|reflexivity]. apply (fo_act _ _ _ _ _ _ Hf). apply Ha. assumption.
+    intros f a es Hes Ha. split; [simpl; assumption|]. split; [cbn; intros _; lia|].
+    intros _. cbn [fresh c_flow c_heads c_forked].
+    destruct (cert_ok_flow prog certs f es Hok Hes) as [ct Hf].
+    exists es, ct. split; [assumption|]. split; [assumption|].
+    constructor; [|constructor]. split.
+    - cbn [h_inert h_alts h_catch]. intros _ q [<-|[]]. split; [lia|]. split.
+      + intros Hlt. destruct (fo_head _ _ _ _ _ Hf) as [tl Htl].
+        pose proof (resumes_stk true es (f_rank ct) (f_stk ct) 0 (EWaitInt true) [] 1 [] (fo_check _ _ _ _ _ Hf)) as R.
+        apply R; [subst es; reflexivity | apply (fo_stk0 _ _ _ _ _ Hf) | left; reflexivity | assumption].
+      + intros Hsa. unfold sa_of in Hsa. cbn in Hsa. split.
+        * intros Hlt. apply (fo_act _ _ _ _ _ Hf); [apply Ha; destruct a; [reflexivity|discriminate]|assumption].
+        * discriminate.
+    - intros _. unfold quiet. cbn [h_pos]. destruct (fo_head _ _ _ _ _ Hf) as [tl Htl]. subst es. reflexivity.
   Qed.
 
   Lemma fresh_pot : forall f a es, nth_error prog f = Some es -> ipot (fresh f a) = newpot prog certs f.
   Proof.
-    intros f a es Hes. destruct (cert_ok_flow prog certs cleans f es Hok Hes) as [ct [cl Hf]].
-    pose proof (fo_cert _ _ _ _ _ _ Hf) as Hct.
-    unfold Cascade.ipot, newpot. cbn [fresh listening started c_status c_inert c_flow c_pos c_act c_restarted].
-    rewrite Hes, Hct. destruct a; simpl; lia.
+    intros f a es Hes. destruct (cert_ok_flow prog certs f es Hok Hes) as [ct Hf].
+    pose proof (fo_cert _ _ _ _ _ Hf) as Hct.
+    unfold Cascade.ipot, newpot. cbn [fresh listening started c_status c_flow c_heads c_act c_restarted].
+    rewrite Hes, Hct. unfold hpot. simpl. destruct a; simpl; lia.
+  Qed.
+
+  Lemma outer_head_dec : forall orc keep cr st i j c es hd e,
+    swf st -> nth_error (c_insts st) i = Some c -> nth_error prog (c_flow c) = Some es ->
+    nth_error (c_heads c) j = Some hd -> movable c hd = true -> nth_error es (h_pos hd) = Some e ->
+    exists st', outer_head true prog orc keep cr st i j = COk st' /\ swf st' /\ phi st' + 1 <= phi st.
+  Proof.
+    intros orc keep cr st i j c es hd e Hs Hn Hp Hj Hm He. unfold outer_head. destruct cr.
+    - destruct (react_head_ok orc keep RAdvance st i j Hs) as [st' [H1 [H2 [H3 H4]]]].
+      exists st'. split; [assumption|]. split; [assumption|]. eapply H4; eauto. discriminate.
+    - rewrite Hn, Hj, Hp, He.
+      pose proof (inst_iwf st i c Hs Hn) as Hc.
+      pose proof Hm as Hm'. unfold movable in Hm'. apply andb_true_iff in Hm'. destruct Hm' as [Hl Hmov]. apply negb_true_iff in Hmov.
+      destruct (flow_of c Hc Hl es Hp) as [ct Hf].
+      assert (Hdrop : exists st', COk (apply_rout st i {| r_inst := with_heads c (remove_nth (c_heads c) j); r_right := []; r_left := [] |}) = COk st' /\
+                                   swf st' /\ phi st' + 1 <= phi st).
+      { destruct (apply_good st i c _ Hs Hn (drop_good c j hd (remove_nth (c_heads c) j) Hc Hl Hj Hmov (fun x H => H) (fun f => le_n _) (le_n _))) as [A B].
+        eauto. }
+      destruct e as [[]| | | | | | | | | | |]; try exact Hdrop.
+      destruct (nth_error (h_alts hd) 1) as [q|] eqn:Hq.
+      + assert (Hqin : In q (h_alts hd)) by (eapply nth_error_In; eauto).
+        destruct (head_good c j hd q es ct (orc (c_tick st)) (remove_nth (c_heads c) j) Hc Hl Hp Hf Hj Hmov Hqin (fun x H => H) (le_n _) (le_n _)) as [ro [Hr Hg]].
+        rewrite Hr. destruct (apply_good st i c ro Hs Hn Hg) as [A B]. eauto.
+      + (* aborted with the default restart: the instance had been started (side condition 2) *)
+        assert (Hst : c_act c = true -> started c = true).
+        { intros Hact. destruct (started c) eqn:Hsd; [reflexivity|]. exfalso.
+          destruct Hc as [_ [_ Hw]]. destruct (Hw Hl) as [es' [ct' [Hp' [_ Hall]]]].
+          rewrite Hp in Hp'. inversion Hp'; subst es'.
+          rewrite Forall_forall in Hall. destruct (Hall hd (nth_error_In _ _ Hj)) as [_ Hqt].
+          assert (Hsa : sa_of c = true) by (unfold sa_of; rewrite Hsd, Hact; reflexivity).
+          specialize (Hqt Hsa). unfold quiet in Hqt. rewrite He in Hqt. discriminate. }
+        assert (Hg : good c (fail_inst c true false (c_restarted c))) by (eapply fail_good; eauto).
+        destruct (apply_good st i c _ Hs Hn Hg) as [A B]. eauto.
   Qed.
 
   (* one step of the cascade strictly decreases the potential *)
-  Lemma step_dec : forall orc react st,
+  Lemma step_dec : forall o st,
     swf st ->
-    step true prog orc react st = None \/
-    exists st', step true prog orc react st = Some (COk st') /\ swf st' /\ phi st' + 1 <= phi st.
+    step true prog o st = None \/
+    exists st', step true prog o st = Some (COk st') /\ swf st' /\ phi st' + 1 <= phi st.
   Proof.
-    intros orc react st Hs. unfold step.
+    intros o st Hs. unfold step.
+    destruct (find_head is_pending prog (c_insts st) 0) as [[i j]|] eqn:Hpend.
+    { right. destruct (find_head_spec _ _ _ _ _ Hpend) as [c [es [hd [e [Hn [_ [Hp [Hj [Hm [He _]]]]]]]]]].
+      rewrite Nat.sub_0_r in Hn.
+      destruct (react_head_ok (o_orc o) (o_keep o (c_tick st)) RAdvance st i j Hs) as [st' [H1 [H2 [H3 H4]]]].
+      exists st'. rewrite H1. split; [reflexivity|]. split; [assumption|]. eapply H4; eauto. discriminate. }
     destruct (c_queue st) as [|ev q] eqn:Hq.
-    - destruct (find_actionable prog (c_insts st) 0) as [i|] eqn:Hf; [|left; reflexivity]. right.
-      destruct (find_actionable_spec _ _ _ Hf) as [c [Hn [_ Hm]]]. rewrite Nat.sub_0_r in Hn.
-      destruct (react_advance_dec orc st i c Hs Hn Hm) as [st' [H1 [H2 H3]]].
+    - destruct (find_head is_outer prog (c_insts st) 0) as [[i j]|] eqn:Hf; [|left; reflexivity]. right.
+      destruct (find_head_spec _ _ _ _ _ Hf) as [c [es [hd [e [Hn [_ [Hp [Hj [Hm [He _]]]]]]]]]].
+      rewrite Nat.sub_0_r in Hn.
+      destruct (outer_head_dec (o_orc o) (o_keep o (c_tick st)) (o_conflict o (c_tick st)) st i j c es hd e Hs Hn Hp Hj Hm He)
+        as [st' [H1 [H2 H3]]].
       exists st'. rewrite H1. auto.
     - right. destruct Hs as [Hi Hqw]. rewrite Hq in Hqw. inversion Hqw as [|x l Hev Hq']; subst.
       destruct ev as [f a|].
@@ -691,12 +1131,10 @@ Section Steps.
             eapply fresh_iwf; eauto. intros ->. exact Hev. }
           assert (Hn : nth_error (c_insts st1) (length (c_insts st)) = Some (fresh f a)).
           { simpl. rewrite nth_error_app2 by lia. rewrite Nat.sub_diag. reflexivity. }
-          assert (Hm : movable prog (fresh f a) = true).
-          { unfold movable, at_stop. cbn [fresh listening c_status c_inert c_flow c_pos]. rewrite Hes.
-            destruct (cert_ok_flow prog certs cleans f es Hok Hes) as [ct [cl Hf]].
-            destruct (fo_head _ _ _ _ _ _ Hf) as [tl Htl]. subst es. reflexivity. }
-          destruct (react_advance_dec orc st1 _ _ Hs1 Hn Hm) as [st' [H1 [H2 H3]]].
+          destruct (react_head_ok (o_orc o) (o_keep o (c_tick st)) RAdvance st1 (length (c_insts st)) 0 Hs1) as [st' [H1 [H2 [H3 H4]]]].
           exists st'. split; [rewrite H1; reflexivity|]. split; [assumption|].
+          assert (Hdec : phi st' + 1 <= phi st1).
+          { eapply H4; [exact Hn|reflexivity|exact Hes|reflexivity|discriminate]. }
           assert (Hp1 : phi st1 + 1 = phi st).
           { unfold Cascade.phi. cbn [st1 c_insts c_queue]. rewrite Hq, map_app, list_sum_app.
             cbn [map list_sum fold_right ev_cost]. rewrite (fresh_pot f a es Hes). unfold list_sum. lia. }
@@ -705,32 +1143,33 @@ Section Steps.
           unfold Cascade.phi. simpl. rewrite Hq. simpl. lia.
       + set (st1 := {| c_insts := c_insts st; c_queue := q; c_tick := S (c_tick st) |}).
         assert (Hs1 : swf st1) by (split; simpl; assumption).
-        destruct (react_all_ok orc (react (c_tick st)) (seq 0 (length (c_insts st))) st1 Hs1) as [st' [H1 [H2 H3]]].
+        destruct (react_all_ok (o_orc o) (o_keep o) (o_react o (c_tick st)) (all_heads st) st1 Hs1) as [st' [H1 [H2 H3]]].
         exists st'. split; [rewrite H1; reflexivity|]. split; [assumption|].
         assert (Hp1 : phi st1 + 1 = phi st) by (unfold Cascade.phi; simpl; rewrite Hq; simpl; lia).
         lia.
   Qed.
 
   (* MAIN: with the repaired restart logic the cascade of a well-formed state ends within phi steps *)
-  Theorem cascade_terminates : forall orc react fuel st,
+  Theorem cascade_terminates : forall o fuel st,
     swf st -> phi st <= fuel ->
-    exists st', cascade true prog orc react fuel st = COk st' /\ swf st' /\
-                step true prog orc react st' = None.
+    exists st', cascade true prog o fuel st = COk st' /\ swf st' /\ step true prog o st' = None.
   Proof.
-    intros orc react. induction fuel as [|fuel IH]; intros st Hs Hp.
-    - destruct (step_dec orc react st Hs) as [Hn|[st' [H1 [H2 H3]]]].
+    intros o. induction fuel as [|fuel IH]; intros st Hs Hp.
+    - destruct (step_dec o st Hs) as [Hn|[st' [H1 [H2 H3]]]].
       + exists st. simpl. rewrite Hn. auto.
       + lia.
-    - destruct (step_dec orc react st Hs) as [Hn|[st' [H1 [H2 H3]]]].
+    - destruct (step_dec o st Hs) as [Hn|[st' [H1 [H2 H3]]]].
       + exists st. simpl. rewrite Hn. auto.
       + simpl. rewrite H1. apply IH; [assumption|lia].
   Qed.
 End Steps.
 
 (* ------------------------------------------------------------------------------------------ *)
-(* the bound in terms of program size and number of live instances *)
+(* the bound in terms of program size, number of live instances and live heads *)
 
 Definition live (st : cstate) : nat := length (filter listening (c_insts st)).
+Definition live_heads (st : cstate) : nat :=
+  list_sum (map (fun c => if listening c then length (c_heads c) else 0) (c_insts st)).
 
 Lemma list_max_nth : forall l p, nth p l 0 <= list_max l.
 Proof.
@@ -756,16 +1195,27 @@ Proof.
   pose proof (list_max_in _ _ Hin). lia.
 Qed.
 
-Lemma ipot_le : forall prog certs c, ipot prog certs c <= if listening c then max_flow_cost prog certs else 0.
+Lemma hpot_le : forall w len h, hpot w len h <= 1 + list_max w.
+Proof.
+  intros w len h. unfold hpot. destruct (h_inert h); [lia|].
+  assert (list_max (map (wat w len) (h_alts h)) <= list_max w).
+  { apply list_max_le. apply Forall_forall. intros x Hx. apply in_map_iff in Hx. destruct Hx as [q [<- _]]. apply wat_le_max. }
+  lia.
+Qed.
+
+Lemma ipot_le : forall prog certs c,
+  ipot prog certs c <= if listening c then (1 + length (c_heads c)) * max_flow_cost prog certs else 0.
 Proof.
   intros prog certs c. unfold ipot. destruct (listening c); [|lia].
-  destruct (c_inert c).
-  - unfold max_flow_cost. destruct (started c); lia.
-  - destruct (nth_error prog (c_flow c)) as [es|] eqn:He; [|unfold max_flow_cost; destruct (started c); lia].
-    destruct (nth_error certs (c_flow c)) as [ct|] eqn:Hc; [|unfold max_flow_cost; destruct (started c); lia].
-    pose proof (flow_cost_le prog certs (c_flow c) es He) as Hf. unfold flow_cost in Hf. rewrite He, Hc in Hf.
-    pose proof (wat_le_max (f_w ct) (length es) (S (c_pos c))).
-    destruct (started c), (c_act c && negb (c_restarted c)); simpl; lia.
+  destruct (nth_error prog (c_flow c)) as [es|] eqn:He; [|unfold max_flow_cost; destruct (started c); lia].
+  destruct (nth_error certs (c_flow c)) as [ct|] eqn:Hc; [|unfold max_flow_cost; destruct (started c); lia].
+  pose proof (flow_cost_le prog certs (c_flow c) es He) as Hf. unfold flow_cost in Hf. rewrite He, Hc in Hf.
+  assert (Hs : list_sum (map (hpot (f_w ct) (length es)) (c_heads c)) <= length (c_heads c) * (1 + list_max (f_w ct))).
+  { induction (c_heads c) as [|h l IH]; simpl; [lia|]. pose proof (hpot_le (f_w ct) (length es) h). lia. }
+  set (M := max_flow_cost prog certs) in *.
+  assert (1 + list_max (f_w ct) <= M) by lia.
+  assert (length (c_heads c) * (1 + list_max (f_w ct)) <= length (c_heads c) * M) by (apply Nat.mul_le_mono_l; assumption).
+  destruct (started c), (c_act c && negb (c_restarted c)), (existsb (fun h => negb (h_inert h)) (c_heads c)); simpl; lia.
 Qed.
 
 Lemma ev_cost_le : forall prog certs e, ev_cost prog certs e <= max_flow_cost prog certs.
@@ -777,128 +1227,163 @@ Proof.
 Qed.
 
 Lemma phi_le_bound : forall prog certs st,
-  phi prog certs st <= rtc_bound prog certs (live st) (length (c_queue st)).
+  phi prog certs st <= rtc_bound prog certs (live_heads st) (live st) (length (c_queue st)).
 Proof.
-  intros prog certs st. unfold phi, rtc_bound, live.
-  assert (H1 : list_sum (map (ipot prog certs) (c_insts st)) <= length (filter listening (c_insts st)) * max_flow_cost prog certs).
+  intros prog certs st. unfold phi, rtc_bound, live, live_heads.
+  set (M := max_flow_cost prog certs).
+  assert (H1 : list_sum (map (ipot prog certs) (c_insts st)) <=
+               (list_sum (map (fun c => if listening c then length (c_heads c) else 0) (c_insts st)) +
+                length (filter listening (c_insts st))) * M).
   { induction (c_insts st) as [|c l IH]; simpl; [lia|].
-    pose proof (ipot_le prog certs c). destruct (listening c); simpl; lia. }
-  assert (H2 : list_sum (map (ev_cost prog certs) (c_queue st)) <= length (c_queue st) * max_flow_cost prog certs).
-  { induction (c_queue st) as [|e l IH]; simpl; [lia|]. pose proof (ev_cost_le prog certs e). lia. }
+    pose proof (ipot_le prog certs c) as Hc. fold M in Hc. destruct (listening c); simpl; lia. }
+  assert (H2 : list_sum (map (ev_cost prog certs) (c_queue st)) <= length (c_queue st) * M).
+  { induction (c_queue st) as [|e l IH]; simpl; [lia|]. pose proof (ev_cost_le prog certs e). fold M in H. lia. }
   lia.
 Qed.
 
-Theorem rtc_bound_thm : forall prog certs cleans,
-  cascade_cert_ok prog certs cleans = true ->
-  forall orc react st, swf prog certs st ->
-  exists st', cascade true prog orc react (rtc_bound prog certs (live st) (length (c_queue st))) st = COk st' /\
-              step true prog orc react st' = None.
+Theorem rtc_bound_thm : forall prog certs,
+  cascade_cert_ok prog certs = true ->
+  forall o st, swf prog certs st ->
+  exists st', cascade true prog o (rtc_bound prog certs (live_heads st) (live st) (length (c_queue st))) st = COk st' /\
+              step true prog o st' = None.
 Proof.
-  intros prog certs cleans Hok orc react st Hs.
-  destruct (cascade_terminates prog certs cleans Hok orc react _ st Hs (phi_le_bound prog certs st)) as [st' [H1 [_ H2]]].
+  intros prog certs Hok o st Hs.
+  destruct (cascade_terminates prog certs Hok o _ st Hs (phi_le_bound prog certs st)) as [st' [H1 [_ H2]]].
   eauto.
 Qed.
 
-(* a decidable version of well-formedness, for examples and for the harness *)
-Definition iwfb (prog : program) (certs : list fcert) (cleans : list (list bool)) (c : cinst) : bool :=
+(* a decidable version of well-formedness, for examples *)
+Definition hwfb (es : list elem) (ct : fcert) (sa fk : bool) (h : chead) : bool :=
+  (h_inert h ||
+   forallb (fun q => Nat.leb 1 q &&
+                     (Nat.leb (length es) q || match stk_at (f_stk ct) q with Some s => eqb_labels s (h_catch h) | None => false end) &&
+                     (negb sa || ((Nat.leb (length es) q || nth q (f_clean ct) false) &&
+                                  (negb fk || (Nat.ltb q (length es) && nth q (f_noend ct) false)))))
+           (h_alts h)) &&
+  (negb sa || quiet es h).
+
+Definition iwfb (prog : program) (certs : list fcert) (c : cinst) : bool :=
   (negb (c_act c) || activatable prog (c_flow c)) &&
-  (negb (listening c) || c_inert c ||
-   match nth_error prog (c_flow c), nth_error certs (c_flow c), nth_error cleans (c_flow c) with
-   | Some es, Some ct, Some cl =>
-       Nat.ltb (c_pos c) (length es) &&
-       match stk_at (f_stk ct) (c_pos c) with Some s => eqb_labels s (c_catch c) | None => false end &&
-       match nth_error es (c_pos c) with
-       | Some e => is_stop e && (started c || negb (c_act c) || (nth (c_pos c) cl false && wakes e))
-       | None => false
-       end
-   | _, _, _ => false
+  (c_forked c || Nat.leb (length (c_heads c)) 1) &&
+  (negb (listening c) ||
+   match nth_error prog (c_flow c), nth_error certs (c_flow c) with
+   | Some es, Some ct => forallb (hwfb es ct (sa_of c) (c_forked c)) (c_heads c)
+   | _, _ => false
    end).
 
-Definition swfb (prog : program) (certs : list fcert) (cleans : list (list bool)) (st : cstate) : bool :=
-  forallb (iwfb prog certs cleans) (c_insts st) &&
+Definition swfb (prog : program) (certs : list fcert) (st : cstate) : bool :=
+  forallb (iwfb prog certs) (c_insts st) &&
   forallb (fun e => match e with CStart g true => activatable prog g | _ => true end) (c_queue st).
 
-Lemma cert_ok_flow' : forall prog certs cleans f es ct cl,
-  cascade_cert_ok prog certs cleans = true -> nth_error prog f = Some es ->
-  nth_error certs f = Some ct -> nth_error cleans f = Some cl -> flow_ok prog certs f es ct cl.
+Lemma hwfb_sound : forall es ct sa fk h, hwfb es ct sa fk h = true -> hwf es ct sa fk h.
 Proof.
-  intros prog certs cleans f es ct cl H Hn Hc Hcl. unfold cascade_cert_ok in H.
-  apply andb_true_iff in H. destruct H as [_ H].
-  pose proof (forallb_i_nth _ _ _ 0 f es H Hn) as Hf. simpl in Hf. rewrite Hc, Hcl in Hf.
-  repeat (apply andb_true_iff in Hf; let H' := fresh "H" in destruct Hf as [Hf H']).
-  constructor; auto.
-  - destruct es as [|e tl]; [discriminate|]. destruct e; try discriminate. destruct started_making; try discriminate. eauto.
-  - destruct (stk_at (f_stk ct) 0) as [[|]|]; try discriminate. reflexivity.
-  - intros Ha. rewrite Ha in H0. simpl in H0. assumption.
+  intros es ct sa fk h H. unfold hwfb in H. apply andb_true_iff in H. destruct H as [H1 H2]. split.
+  - intros Hi q Hq. rewrite Hi, orb_false_l in H1. rewrite forallb_forall in H1. specialize (H1 q Hq).
+    apply andb_true_iff in H1. destruct H1 as [H1 H3]. apply andb_true_iff in H1. destruct H1 as [Ha Hb].
+    apply Nat.leb_le in Ha. split; [assumption|]. split.
+    + intros Hlt. apply orb_true_iff in Hb. destruct Hb as [Hb|Hb]; [apply Nat.leb_le in Hb; lia|].
+      destruct (stk_at (f_stk ct) q) as [s|]; [|discriminate]. apply eqb_labels_eq in Hb. congruence.
+    + intros Hsa. rewrite Hsa in H3. simpl in H3. apply andb_true_iff in H3. destruct H3 as [Hc Hd]. split.
+      * intros Hlt. apply orb_true_iff in Hc. destruct Hc as [Hc|Hc]; [apply Nat.leb_le in Hc; lia|assumption].
+      * intros Hfk. rewrite Hfk in Hd. simpl in Hd. apply andb_true_iff in Hd. destruct Hd as [Hd1 Hd2].
+        apply Nat.ltb_lt in Hd1. auto.
+  - intros Hsa. rewrite Hsa in H2. simpl in H2. assumption.
 Qed.
 
-Lemma swfb_sound : forall prog certs cleans st,
-  cascade_cert_ok prog certs cleans = true -> swfb prog certs cleans st = true -> swf prog certs st.
+Lemma swfb_sound : forall prog certs st,
+  cascade_cert_ok prog certs = true -> swfb prog certs st = true -> swf prog certs st.
 Proof.
-  intros prog certs cleans st Hok H. unfold swfb in H. apply andb_true_iff in H. destruct H as [H1 H2].
+  intros prog certs st Hok H. unfold swfb in H. apply andb_true_iff in H. destruct H as [H1 H2].
   rewrite forallb_forall in H1, H2. split; apply Forall_forall.
-  - intros c Hc. specialize (H1 c Hc). unfold iwfb in H1. apply andb_true_iff in H1. destruct H1 as [Ha Hb].
-    split.
+  - intros c Hc. specialize (H1 c Hc). unfold iwfb in H1. apply andb_true_iff in H1. destruct H1 as [H1 Hb].
+    apply andb_true_iff in H1. destruct H1 as [Ha Hf].
+    split; [|split].
     + intros Hact. rewrite Hact in Ha. simpl in Ha. assumption.
-    + intros Hl Hi. rewrite Hl, Hi in Hb. simpl in Hb.
+    + intros Hfk. rewrite Hfk in Hf. simpl in Hf. apply Nat.leb_le in Hf. assumption.
+    + intros Hl. rewrite Hl in Hb. simpl in Hb.
       destruct (nth_error prog (c_flow c)) as [es|] eqn:He; [|discriminate].
       destruct (nth_error certs (c_flow c)) as [ct|] eqn:Hct; [|discriminate].
-      destruct (nth_error cleans (c_flow c)) as [cl|] eqn:Hcl; [|discriminate].
-      apply andb_true_iff in Hb. destruct Hb as [Hb H3]. apply andb_true_iff in Hb. destruct Hb as [Hp Hs].
-      apply Nat.ltb_lt in Hp.
-      destruct (stk_at (f_stk ct) (c_pos c)) as [s|] eqn:Hst; [|discriminate]. apply eqb_labels_eq in Hs. subst s.
-      destruct (nth_error es (c_pos c)) as [e|] eqn:Hn; [|discriminate].
-      apply andb_true_iff in H3. destruct H3 as [Hstop Hcl'].
-      exists es, ct, cl. split; [reflexivity|]. split; [eapply cert_ok_flow'; eauto|].
-      split; [assumption|]. split; [assumption|]. exists e. split; [assumption|]. split; [assumption|].
-      intros Hns Hact. rewrite Hns, Hact in Hcl'. simpl in Hcl'. apply andb_true_iff in Hcl'. assumption.
+      destruct (cert_ok_flow prog certs (c_flow c) es Hok He) as [ct' Hfo].
+      assert (ct' = ct) by (pose proof (fo_cert _ _ _ _ _ Hfo); congruence). subst ct'.
+      exists es, ct. split; [reflexivity|]. split; [assumption|].
+      apply Forall_forall. intros h Hh. rewrite forallb_forall in Hb. apply hwfb_sound. apply Hb. assumption.
   - intros e He. specialize (H2 e He). destruct e as [g [|]|]; simpl; auto.
 Qed.
 
 (* ------------------------------------------------------------------------------------------ *)
 (* the unchanged restart logic: an activated flow that aborts at once keeps the cascade busy forever *)
 
-Definition f4_after_send (insts : list cinst) (q : list cev) (tick : nat) : cstate :=
-  {| c_insts := insts; c_queue := CStart 1 true :: q; c_tick := tick |}.
+Definition f4_main : cinst := mk_inst 0 [mk_head 3] CStarting false.
+Definition f4_dead : cinst :=
+  {| c_flow := 1; c_heads := []; c_status := CDead; c_act := true; c_restarted := true; c_forked := false |}.
+Definition f4_after_send (k : nat) (q : list cev) (tick : nat) : cstate :=
+  {| c_insts := f4_main :: repeat f4_dead k; c_queue := CStart 1 true :: q; c_tick := tick |}.
 
-Lemma f4_spins : forall n insts q tick,
-  cascade false f4_prog all_true all_advance n (f4_after_send insts q tick) = COut.
+Lemma find_head_dead : forall p k i, find_head p f4_prog (repeat f4_dead k) i = None.
+Proof. induction k as [|k IH]; intros i; simpl; [reflexivity|]. apply IH. Qed.
+
+Lemma set_nth_app_last : forall A (l : list A) a b, set_nth (l ++ [a]) (length l) b = l ++ [b].
+Proof. induction l as [|x l IH]; intros a b; simpl; [reflexivity|]. rewrite IH. reflexivity. Qed.
+
+Lemma repeat_snoc : forall A (x : A) k, repeat x k ++ [x] = repeat x (S k).
+Proof. induction k as [|k IH]; simpl; [reflexivity|]. rewrite IH. reflexivity. Qed.
+
+Lemma f4_spins : forall n k q tick,
+  cascade false f4_prog eager n (f4_after_send k q tick) = COut.
 Proof.
-  induction n as [|n IH]; intros insts q tick; [reflexivity|].
-  unfold f4_after_send. simpl cascade. unfold step. cbn [c_queue c_insts c_tick].
-  change (nth_error f4_prog 1) with (Some [EWaitInt true; EAbort]). cbv iota beta.
-  unfold react_inst. cbn [c_insts].
-  rewrite nth_error_app2 by lia. rewrite Nat.sub_diag. cbn [nth_error].
-  change (movable f4_prog (fresh 1 true)) with true. cbv iota.
-  change (nth_error f4_prog (c_flow (fresh 1 true))) with (Some [EWaitInt true; EAbort]). cbv iota beta.
-  match goal with |- context [run_inst false ?es ?o ?c] =>
-    replace (run_inst false es o c) with
-      (Some {| r_inst := {| c_flow := 1; c_pos := 2; c_catch := []; c_status := CDead; c_act := true;
-                            c_restarted := true; c_inert := true |};
-               r_right := [CNote]; r_left := [CStart 1 true] |}) by reflexivity end.
-  cbv iota beta. unfold apply_rout. cbn [r_inst r_right r_left c_insts c_queue c_tick app].
-  apply (IH _ (q ++ [CNote]) _).
+  induction n as [|n IH]; intros k q tick.
+  - unfold f4_after_send. simpl cascade. unfold step. cbn [c_insts c_queue].
+    simpl find_head. rewrite find_head_dead. reflexivity.
+  - unfold f4_after_send. simpl cascade. unfold step. cbn [c_insts c_queue c_tick].
+    simpl find_head. rewrite find_head_dead.
+    change (nth_error f4_prog 1) with (Some [EWaitInt true; EAbort]). cbv iota beta.
+    unfold react_head. cbn [c_insts].
+    replace (nth_error ((f4_main :: repeat f4_dead k) ++ [fresh 1 true]) (length (f4_main :: repeat f4_dead k)))
+      with (Some (fresh 1 true)) by (rewrite nth_error_app2 by lia; rewrite Nat.sub_diag; reflexivity).
+    cbv iota beta.
+    change (nth_error (c_heads (fresh 1 true)) 0) with (Some {| h_pos := 0; h_catch := []; h_inert := false; h_alts := [1] |}).
+    change (nth_error f4_prog (c_flow (fresh 1 true))) with (Some [EWaitInt true; EAbort]).
+    cbv iota beta.
+    match goal with |- context [apply_rout ?st ?i ?ro] => idtac | _ => idtac end.
+    cbn [movable fresh listening c_status h_inert negb andb c_heads remove_nth h_pos nth_error h_alts c_tick].
+    match goal with |- context [run_head false ?es ?o ?c ?hd ?q] =>
+      replace (run_head false es o c hd q) with
+        (Some {| r_inst := f4_dead; r_right := [CNote]; r_left := [CStart 1 true] |}) by reflexivity end.
+    cbv iota beta. unfold apply_rout. cbn [r_inst r_right r_left c_insts c_queue c_tick].
+    rewrite set_nth_app_last. cbn [app]. rewrite repeat_snoc.
+    apply (IH (S k) (q ++ [CNote]) _).
 Qed.
 
 Theorem activated_abort_refuted :
   cascade_guardedb f4_prog = true /\
-  (forall n, cascade false f4_prog all_true all_advance n
-               (f4_after_send [ {| c_flow := 0; c_pos := 3; c_catch := []; c_status := CStarting; c_act := false;
-                                   c_restarted := false; c_inert := false |} ] [] 0) = COut) /\
-  (exists st', cascade true f4_prog all_true all_advance 20
-               (f4_after_send [ {| c_flow := 0; c_pos := 3; c_catch := []; c_status := CStarting; c_act := false;
-                                   c_restarted := false; c_inert := false |} ] [] 0) = COk st').
+  (forall n, cascade false f4_prog eager n (f4_after_send 0 [] 0) = COut) /\
+  (exists st', cascade true f4_prog eager 20 (f4_after_send 0 [] 0) = COk st').
 Proof.
   split; [vm_compute; reflexivity|]. split.
   - intros n. apply f4_spins.
   - eexists. vm_compute. reflexivity.
 Qed.
 
-(* the hypotheses of rtc_bound_thm are inhabited: the state right after `activate a` was sent *)
+(* the hypotheses of rtc_bound_thm are inhabited: the state right after `activate a` was sent,
+   and a state of the or-group program with two resting heads, one of them woken *)
 Example rtc_bound_inhabited :
-  let '(certs, cleans) := compute_certs f4_prog 3 in
-  let st := f4_after_send [ {| c_flow := 0; c_pos := 3; c_catch := []; c_status := CStarting; c_act := false;
-                               c_restarted := false; c_inert := false |} ] [] 0 in
-  cascade_cert_ok f4_prog certs cleans = true /\ swfb f4_prog certs cleans st = true /\
-  rtc_bound f4_prog certs (live st) (length (c_queue st)) = 58.
+  let certs := compute_certs f4_prog 3 in
+  let st := f4_after_send 0 [] 0 in
+  cascade_cert_ok f4_prog certs = true /\ swfb f4_prog certs st = true.
+Proof. vm_compute. split; reflexivity. Qed.
+
+Definition f6_state : cstate :=
+  {| c_insts := [ {| c_flow := 0;
+                     c_heads := [ {| h_pos := 7; h_catch := [0]; h_inert := true; h_alts := [8; 10] |};
+                                  {| h_pos := 4; h_catch := [0]; h_inert := false; h_alts := [5; 10] |} ];
+                     c_status := CStarted; c_act := false; c_restarted := false; c_forked := true |} ];
+     c_queue := [CNote]; c_tick := 0 |}.
+
+Example rtc_bound_inhabited_fork :
+  let certs := compute_certs f6_prog 2 in
+  cascade_cert_ok f6_prog certs = true /\ swfb f6_prog certs f6_state = true /\
+  match cascade true f6_prog eager (rtc_bound f6_prog certs (live_heads f6_state) (live f6_state) 1) f6_state with
+  | COk st => map (fun c => (map h_pos (c_heads c), c_status c)) (c_insts st) = [([], CDead)]
+  | _ => False
+  end.
 Proof. vm_compute. repeat split. Qed.
